@@ -41,25 +41,53 @@ def _is_stream_call(e: ast.AST) -> bool:
     return False
 
 
-def run(repo: Repo, rep: Report) -> None:
-    from vlib import h_c04 as H
+class _Only:
+    """a Report seen through one rule: obligations of the other rules of a shared scan are dropped (the scan of rules a / a2
+    is one walk; each rule is a layer of its own, so that a lost anchor of one does not take the other with it)"""
 
-    rep.extra["explanation"] = EXPLANATION
-    ev = repo.mod("rdflib.plugins.sparql.evaluate")
-    eu = repo.mod("rdflib.plugins.sparql.evalutils")
-    alg = repo.mod("rdflib.plugins.sparql.algebra")
-    par = repo.mod("rdflib.plugins.sparql.parser")
-    agg = repo.mod("rdflib.plugins.sparql.aggregates")
+    def __init__(self, rep: Report, rid: str):
+        self._rep, self._rid = rep, rid
 
+    def ob(self, rule, *a, **k):
+        return self._rep.ob(rule, *a, **k) if rule == self._rid else True
+
+    def analysed(self, *names):
+        self._rep.analysed(*names)
+
+
+def rule_a(repo: Repo, rep: Report) -> None:
     # ------------------------------------------------------------------ (a)
     rep.rule("C04.a-multiplicity-preserved",
              "a solution stream is materialised only by multiplicity-preserving constructors (list/sorted/islice/iteration); "
              "set()/frozenset()/set-comprehension/dict keys over a stream is allowed only at table-listed "
              "multiplicity-insensitive places", floor=3)
+    _scan_streams(repo, _Only(rep, "C04.a-multiplicity-preserved"))
+
+
+def rule_a2(repo: Repo, rep: Report) -> None:
     rep.rule("C04.a2-reiterated-operand-materialised",
              "the operand that _join / _minus iterate once per left solution is a materialised collection - a display, a "
              "comprehension, or list/tuple/set/frozenset/sorted(...) - on every path to the call (reaching definitions of "
              "the local it is passed in), never a one-shot generator", floor=3)
+    _scan_streams(repo, _Only(rep, "C04.a2-reiterated-operand-materialised"))
+    eu = repo.mod("rdflib.plugins.sparql.evalutils")
+    # _join / _minus really re-iterate their second parameter inside the loop over the first
+    for name in ("_join", "_minus"):
+        f = eu.func(name)
+        a, b = [x.arg for x in f.args.args[:2]]
+        outer = [n for n in own_nodes(f) if isinstance(n, ast.For) and norm(n.iter) == a]
+        ok = bool(outer) and any(isinstance(x, (ast.For, ast.GeneratorExp, ast.comprehension)) and b in norm(x.iter if not isinstance(x, ast.GeneratorExp) else x.generators[0].iter)
+                                 for x in ast.walk(outer[0])) if outer else False
+        rep.ob("C04.a2-reiterated-operand-materialised", eu, name, "for x in %s: ... over %s" % (a, b), ok,
+               "nested iteration as assumed" if ok else "%s no longer iterates %s inside the loop over %s (rule premise changed)" % (name, b, a), node=f)
+
+
+def _scan_streams(repo: Repo, rep) -> None:
+    from vlib import h_c04 as H
+
+    ev = repo.mod("rdflib.plugins.sparql.evaluate")
+    eu = repo.mod("rdflib.plugins.sparql.evalutils")
+    agg = repo.mod("rdflib.plugins.sparql.aggregates")
     for mod in (ev, eu, agg):
         for q, f in mod.functions():
             if "." in q:
@@ -122,16 +150,14 @@ def run(repo: Repo, rep: Report) -> None:
                     rep.ob("C04.a2-reiterated-operand-materialised", mod, q, n, ok,
                            "re-iterated operand is materialised: " + why if ok else
                            "the operand re-iterated for every left solution may be a one-shot generator (%s): after the first left solution it is exhausted and rows are lost" % why, node=n)
-    # _join / _minus really re-iterate their second parameter inside the loop over the first
-    for name in ("_join", "_minus"):
-        f = eu.func(name)
-        a, b = [x.arg for x in f.args.args[:2]]
-        outer = [n for n in own_nodes(f) if isinstance(n, ast.For) and norm(n.iter) == a]
-        ok = bool(outer) and any(isinstance(x, (ast.For, ast.GeneratorExp, ast.comprehension)) and b in norm(x.iter if not isinstance(x, ast.GeneratorExp) else x.generators[0].iter)
-                                 for x in ast.walk(outer[0])) if outer else False
-        rep.ob("C04.a2-reiterated-operand-materialised", eu, name, "for x in %s: ... over %s" % (a, b), ok,
-               "nested iteration as assumed" if ok else "%s no longer iterates %s inside the loop over %s (rule premise changed)" % (name, b, a), node=f)
 
+
+def rule_b(repo: Repo, rep: Report) -> None:
+    from vlib import h_c04 as H
+
+    ev = repo.mod("rdflib.plugins.sparql.evaluate")
+    alg = repo.mod("rdflib.plugins.sparql.algebra")
+    par = repo.mod("rdflib.plugins.sparql.parser")
     # ------------------------------------------------------------------ (b)
     rep.rule("C04.b-every-node-has-an-evaluator",
              "every algebra node name constructed in algebra.py (except table-listed non-part names) and every query form "
@@ -162,10 +188,20 @@ def run(repo: Repo, rep: Report) -> None:
             rets = [s for s in n.body if isinstance(s, ast.Return) and s.value is not None]
             calls = [c for c in (_evaluator_call(s.value) for s in rets) if c is not None]
             arms[r_.value] = (calls[0].func.id if calls else None, bool(rets))
+    # the node names the translator can construct: every string the first argument of a `CompValue(...)` call can evaluate
+    # to - written in the call, or reaching it through a local, a conditional expression, a row of a constant table that is
+    # looked up or iterated with `for` (h_c04.str_values).  A name copied from the parse tree (`CompValue(q.name, ...)`) is a
+    # query form of the grammar, which the table QUERY_FORMS covers.
     built = set()
+    undecided = []
     for n in ast.walk(alg.tree):
-        if isinstance(n, ast.Call) and isinstance(n.func, ast.Name) and n.func.id == "CompValue" and n.args and isinstance(n.args[0], ast.Constant):
-            built.add(n.args[0].value)
+        if isinstance(n, ast.Call) and isinstance(n.func, ast.Name) and n.func.id == "CompValue" and n.args:
+            names = H.str_values(alg, n.args[0])
+            if names is None:
+                undecided.append("%s: %s" % (alg.loc(n), norm(n.args[0])[:40]))
+            else:
+                built |= names
+    rep.info["C04.b_node_names_not_decided_statically"] = undecided
     if len(built) < 15:
         raise AnalysisError("algebra.py: expected >= 15 CompValue node names, found %s" % sorted(built))
     gram = set()
@@ -181,6 +217,10 @@ def run(repo: Repo, rep: Report) -> None:
         ok = fn is not None and ret and ev.has(fn)
         rep.ob("C04.b-every-node-has-an-evaluator", ev, "evalPart", "arm for %s" % nm, ok,
                "-> %s" % fn if ok else "algebra node %s has no arm in evalPart that returns an evaluator's result: queries producing it raise / fall through" % nm, node=epf)
+
+
+def rule_b2(repo: Repo, rep: Report) -> None:
+    par = repo.mod("rdflib.plugins.sparql.parser")
     rep.rule("C04.b2-every-expression-has-an-evalfn",
              "every expression Comp of the grammar (Builtin_*, *Expression, Unary*, Function) is given an evaluation "
              "function with setEvalFn (chained or through the name it is assigned to)", floor=50)
@@ -209,6 +249,13 @@ def run(repo: Repo, rep: Report) -> None:
             rep.ob("C04.b2-every-expression-has-an-evalfn", par, "<grammar>", "Comp(%r)" % nm, has,
                    "has an evaluation function" if has else "expression node %s has no evaluation function: _ebv raises `filter got a CompValue without evalfn`" % nm, node=n)
 
+
+
+def rule_c(repo: Repo, rep: Report) -> None:
+    from vlib import h_c04 as H
+
+    ev = repo.mod("rdflib.plugins.sparql.evaluate")
+    eu = repo.mod("rdflib.plugins.sparql.evalutils")
     # ------------------------------------------------------------------ (c)
     rep.rule("C04.c-filter-error-is-false",
              "in _ebv every handler of SPARQLError (and the bare handler around the variable lookup) returns False or falls "
@@ -294,11 +341,9 @@ def run(repo: Repo, rep: Report) -> None:
             ok = isinstance(par_, ast.Call) and norm(par_.func) == "_ebv" and par_.args and par_.args[0] is u
             rep.ob("C04.c-filter-error-is-false", ev, q, "%s consulted through _ebv" % norm(u), ok,
                    "" if ok else "the condition %s is evaluated outside _ebv: an expression error would propagate instead of counting as false" % norm(u), node=u)
-    run_more(repo, rep)
-    construct_rule(repo, rep)
 
 
-def run_more(repo: Repo, rep: Report) -> None:
+def rule_d(repo: Repo, rep: Report) -> None:
     ev = repo.mod("rdflib.plugins.sparql.evaluate")
     eu = repo.mod("rdflib.plugins.sparql.evalutils")
     sp = repo.mod("rdflib.plugins.sparql.sparql")
@@ -317,6 +362,10 @@ def run_more(repo: Repo, rep: Report) -> None:
                 continue
             truthy.scan(repo, rep, "C04.d-unbound-by-identity", mod, f, q, exempt=EXEMPT_D, binding_maps=BMAPS)
 
+
+
+def rule_e(repo: Repo, rep: Report) -> None:
+    ev = repo.mod("rdflib.plugins.sparql.evaluate")
     # (e) GRAPH ?g enumerates every named graph
     rep.rule("C04.e-graph-var-enumerates-all-named-graphs",
              "in evalGraph the loop over the dataset's contexts skips only the default graph (a comparison with "
@@ -334,6 +383,10 @@ def run_more(repo: Repo, rep: Report) -> None:
             rep.ob("C04.e-graph-var-enumerates-all-named-graphs", ev, "evalGraph", n.test, ok,
                    "only the default graph is skipped" if ok else "graphs are skipped under `%s`: a named graph (e.g. an empty one) contributes no ?g solution although the pattern may match without triples" % norm(t)[:80], node=n)
 
+
+
+def rule_f(repo: Repo, rep: Report) -> None:
+    ev = repo.mod("rdflib.plugins.sparql.evaluate")
     # (f) DISTINCT / REDUCED bookkeeping keys on the solution itself
     rep.rule("C04.f-distinct-keys-on-solution",
              "evalDistinct / evalReduced remember the solutions themselves: the value added to the seen-collection and the "
@@ -358,22 +411,83 @@ def run_more(repo: Repo, rep: Report) -> None:
 
 BMAPS = ("rdflib.plugins.sparql.sparql.Bindings", "rdflib.plugins.sparql.sparql.FrozenDict", "rdflib.plugins.sparql.sparql.QueryContext")
 def construct_rule(repo: Repo, rep: Report) -> None:
+    from vlib import h_c04 as H
+
     ev = repo.mod("rdflib.plugins.sparql.evaluate")
     rep.rule("C04.g-construct-instantiates-every-solution",
-             "evalConstructQuery fills the template once for every solution of the pattern (the loop over evalPart has no conditional skip): the "
-             "template is instantiated over the solution multiset, and blank nodes in it are fresh per solution", floor=1)
+             "evalConstructQuery instantiates the template once for every solution of the pattern: wherever it goes through the solutions evalPart gives (a for "
+             "statement, a clause of a comprehension / generator expression, map) a call that receives both the query's template and the solution of the round is "
+             "made in every round - no continue / break / return in the loop body, no `if` on the clause, the call not under a condition - and a lazy form "
+             "(generator expression, map) is run to its end (`<graph> += ...`, list(...), a for statement without break; through chain / chain.from_iterable). "
+             "The template is instantiated over the solution multiset, and blank nodes in it are fresh per solution", floor=1)
     f = ev.func("evalConstructQuery")
-    lps = [n for n in own_nodes(f) if isinstance(n, ast.For) and any(isinstance(c, ast.Call) and norm(c.func) == "evalPart" for c in ast.walk(n.iter))]
-    if not lps:
+    params = H.params_of(f)
+    if len(params) < 2:
+        raise AnalysisError("evalConstructQuery: expected (context, query) parameters")
+
+    def _from_template(e: ast.AST) -> bool:
+        """the value is computed from the template of the query (`<query>.template`, through locals)"""
+        return any(isinstance(x, ast.Attribute) and x.attr == "template" for x in H.closure_nodes(f, e, depth=3))
+
+    def _under_condition(call: ast.AST, top: ast.AST) -> bool:
+        """between `top` (code run once per round) and `call` stands something that evaluates its operand only sometimes"""
+        child = call
+        for p_ in ev.parents(call):
+            if isinstance(p_, ast.IfExp) and child is not p_.test:
+                return True
+            if isinstance(p_, ast.BoolOp) and child is not p_.values[0]:
+                return True
+            if isinstance(p_, ast.If) and child is not p_.test:
+                return True
+            if isinstance(p_, (ast.While, ast.ExceptHandler, ast.Lambda, ast.FunctionDef)):
+                return True
+            if isinstance(p_, ast.Try) and any(child is s_ for s_ in p_.orelse):
+                return True
+            if isinstance(p_, (ast.ListComp, ast.SetComp, ast.DictComp, ast.GeneratorExp)) and p_ is not top and any(g_.ifs for g_ in p_.generators):
+                return True
+            if p_ is top:
+                break
+            child = p_
+        return False
+
+    sites = [s_ for s_ in H.iter_sites(f)
+             if any(isinstance(c, ast.Call) and norm(c.func).split(".")[-1] == "evalPart" for c in H.closure_nodes(f, s_.iter, depth=2))]
+    if not sites:
         raise AnalysisError("evalConstructQuery: loop over evalPart not found")
-    for lp in lps:
-        skips = [n for s_ in lp.body for n in ast.walk(s_) if isinstance(n, (ast.Continue, ast.Break))]
-        conds = [s_ for s_ in lp.body if isinstance(s_, ast.If)]
-        fills = [c for s_ in lp.body for c in ast.walk(s_) if isinstance(c, ast.Call) and norm(c.func) == "_fillTemplate"]
-        top_fill = any(any(c is x for x in ast.walk(s_)) for s_ in lp.body if not isinstance(s_, ast.If) for c in fills)
-        ok = not skips and bool(fills) and top_fill
-        rep.ob("C04.g-construct-instantiates-every-solution", ev, "evalConstructQuery", "for %s in %s" % (norm(lp.target), norm(lp.iter)), ok,
-               "every solution instantiates the template" if ok else "solutions are skipped before the template is filled (%s): duplicate solutions no longer yield their own fresh blank nodes" % (norm(conds[0].test) if conds else "continue/break"), node=lp)
+    for site in sites:
+        what = "for %s in %s" % (norm(site.target), norm(site.iter)) if site.target is not None else norm(site.owner)[:80]
+        skips = site.skips()
+        fills = []
+        if site.kind == "map":
+            # map(g, solutions): g is applied to every solution; g must be (a partial application of / a lambda around) a call that has the template
+            fn_arg = site.owner.args[0]
+            for x in H.closure_nodes(f, fn_arg, depth=2):
+                if isinstance(x, ast.Call) and any(_from_template(a) for a in list(x.args) + [k.value for k in x.keywords]):
+                    fills.append(x)
+        else:
+            tv = {x.id for x in ast.walk(site.target) if isinstance(x, ast.Name)}
+            for top in site.per_round():
+                for c in ast.walk(top):
+                    if not isinstance(c, ast.Call):
+                        continue
+                    args = list(c.args) + [k.value for k in c.keywords]
+                    has_tpl = any(_from_template(a) for a in args)
+                    has_sol = any(isinstance(x, ast.Name) and x.id in tv for a in args for x in H.closure_nodes(f, a, depth=2))
+                    if has_tpl and has_sol and not _under_condition(c, top if site.kind == "for" else site.owner):
+                        fills.append(c)
+        consumed = "built where it stands"
+        if site.lazy:
+            consumed = H.consumed_fully(ev, f, site.owner)
+            if consumed is None and not skips and fills:
+                raise AnalysisError("evalConstructQuery: what becomes of the lazy `%s` is not modelled (is it run to its end?)" % norm(site.owner)[:80])
+        ok = not skips and bool(fills)
+        conds = [s_ for s_ in skips if not isinstance(s_, (ast.Continue, ast.Break, ast.Return))]
+        if site.kind == "for":
+            conds = [s_.test for s_ in site.node.body if isinstance(s_, ast.If)]
+        rep.ob("C04.g-construct-instantiates-every-solution", ev, "evalConstructQuery", what, ok,
+               "every solution instantiates the template (%s)" % consumed if ok else
+               "solutions are skipped before the template is filled (%s): duplicate solutions no longer yield their own fresh blank nodes" % (
+                   norm(conds[0]) if conds else "continue/break" if skips else "no unconditional call with the template and the solution in the round"), node=site.owner)
 
 
 BMAPS_PLACEHOLDER = None
@@ -387,41 +501,53 @@ EXEMPT_D: dict = {
 
 from vlib.core import layer as _layer  # noqa: E402
 
-_run_base = run
+
+def _run_base(repo: Repo, rep: Report) -> None:
+    """the first nine rules, one layer each (DESIGN §14.2): a rule that loses its anchor on the tree or on one view is judged
+    on the other views by itself"""
+    rep.extra["explanation"] = EXPLANATION
+    for f in (rule_a, rule_a2, rule_b, rule_b2, rule_c, rule_d, rule_e, rule_f, construct_rule):
+        _layer(rep, f, repo)
 
 
 def run(repo: Repo, rep: Report) -> None:  # noqa: F811
     _layer(rep, _run_base, repo)
     ev = repo.mod("rdflib.plugins.sparql.evaluate")
     alg = repo.mod("rdflib.plugins.sparql.algebra")
-    # ------------------------------------------------------------------ (h)
-    rep.rule("C04.h-subquery-sees-only-projected-bindings",
-             "evalMultiset (the evaluator of ToMultiSet, i.e. of a sub-SELECT placed in a group) hands the sub-query a context whose bindings are the outer solution restricted to "
-             "the variables the sub-query projects (`….project(<Project>.PV)`): variables that are not projected are local to the sub-query, so a binding made outside for a variable "
-             "of the same name must not constrain it (top-down binding push-down is an optimisation that is only sound for shared, i.e. projected, variables)", floor=1)
-    em = ev.func("evalMultiset")
-    calls = [c for c in own_nodes(em) if isinstance(c, ast.Call) and norm(c.func) == "evalPart"]
-    if not calls:
-        raise AnalysisError("evalMultiset: evalPart call not found")
-    restricted = [a for a in own_nodes(em) if isinstance(a, ast.Assign) and isinstance(a.targets[0], ast.Name) and a.targets[0].id == em.args.args[0].arg
-                  and any(isinstance(c, ast.Call) and isinstance(c.func, ast.Attribute) and c.func.attr == "project" and c.args and norm(c.args[0]).endswith(".PV") for c in ast.walk(a.value))]
-    for c in calls:
-        uses_ctx = c.args and norm(c.args[0]) == em.args.args[0].arg
-        ok = bool(restricted) and uses_ctx and all(r.lineno < c.lineno for r in restricted)
-        rep.ob("C04.h-subquery-sees-only-projected-bindings", ev, "evalMultiset", c, ok,
-               "context restricted to the projected variables first" if ok else
-               "the sub-query is evaluated under ALL outer bindings: in `?c :q ?c . { SELECT ?a WHERE { ?c :p ?a } }` the inner ?c (not projected, hence a different variable) is forced to equal the outer ?c and rows are lost", node=c)
+    def _rule_h(repo: Repo, rep: Report) -> None:
+        # ------------------------------------------------------------------ (h)
+        rep.rule("C04.h-subquery-sees-only-projected-bindings",
+                 "evalMultiset (the evaluator of ToMultiSet, i.e. of a sub-SELECT placed in a group) hands the sub-query a context whose bindings are the outer solution restricted to "
+                 "the variables the sub-query projects (`….project(<Project>.PV)`): variables that are not projected are local to the sub-query, so a binding made outside for a variable "
+                 "of the same name must not constrain it (top-down binding push-down is an optimisation that is only sound for shared, i.e. projected, variables)", floor=1)
+        em = ev.func("evalMultiset")
+        calls = [c for c in own_nodes(em) if isinstance(c, ast.Call) and norm(c.func) == "evalPart"]
+        if not calls:
+            raise AnalysisError("evalMultiset: evalPart call not found")
+        restricted = [a for a in own_nodes(em) if isinstance(a, ast.Assign) and isinstance(a.targets[0], ast.Name) and a.targets[0].id == em.args.args[0].arg
+                      and any(isinstance(c, ast.Call) and isinstance(c.func, ast.Attribute) and c.func.attr == "project" and c.args and norm(c.args[0]).endswith(".PV") for c in ast.walk(a.value))]
+        for c in calls:
+            uses_ctx = c.args and norm(c.args[0]) == em.args.args[0].arg
+            ok = bool(restricted) and uses_ctx and all(r.lineno < c.lineno for r in restricted)
+            rep.ob("C04.h-subquery-sees-only-projected-bindings", ev, "evalMultiset", c, ok,
+                   "context restricted to the projected variables first" if ok else
+                   "the sub-query is evaluated under ALL outer bindings: in `?c :q ?c . { SELECT ?a WHERE { ?c :p ?a } }` the inner ?c (not projected, hence a different variable) is forced to equal the outer ?c and rows are lost", node=c)
 
-    # ------------------------------------------------------------------ (i)
-    rep.rule("C04.i-values-variables-are-in-scope-sets",
-             "the translator's `_vars` annotation (`which variables may be bound by this part`, computed by _addVars) includes the variables of a VALUES block; its rows are plain "
-             "dicts that the generic traversal does not descend into, so _addVars needs an arm for the `values` node. evalLeftJoin uses p1._vars to decide which bindings of the left "
-             "solution to keep when it re-checks `no OPTIONAL match without outside bindings`; with an empty set a left row is dropped whenever the right side has any solution at all", floor=1)
-    av = alg.func("_addVars")
-    arm = [n for n in own_nodes(av) if isinstance(n, ast.Compare) and norm(n.left).endswith(".name") and isinstance(n.comparators[0], ast.Constant) and n.comparators[0].value == "values"]
-    rep.ob("C04.i-values-variables-are-in-scope-sets", alg, "_addVars", "arm for the `values` node", bool(arm),
-           "VALUES variables recorded" if arm else
-           "no arm for `values`: ToMultiSet(values)._vars is empty, so `VALUES ?a { :y 0 } OPTIONAL { VALUES ?a { :x \"\" } }` returns no row at all (each left row must survive: nothing on the right is compatible with it)", node=av)
+    def _rule_i(repo: Repo, rep: Report) -> None:
+        # ------------------------------------------------------------------ (i)
+        rep.rule("C04.i-values-variables-are-in-scope-sets",
+                 "the translator's `_vars` annotation (`which variables may be bound by this part`, computed by _addVars) includes the variables of a VALUES block; its rows are plain "
+                 "dicts that the generic traversal does not descend into, so _addVars needs an arm for the `values` node. evalLeftJoin uses p1._vars to decide which bindings of the left "
+                 "solution to keep when it re-checks `no OPTIONAL match without outside bindings`; with an empty set a left row is dropped whenever the right side has any solution at all", floor=1)
+        av = alg.func("_addVars")
+        arm = [n for n in own_nodes(av) if isinstance(n, ast.Compare) and norm(n.left).endswith(".name") and isinstance(n.comparators[0], ast.Constant) and n.comparators[0].value == "values"]
+        rep.ob("C04.i-values-variables-are-in-scope-sets", alg, "_addVars", "arm for the `values` node", bool(arm),
+               "VALUES variables recorded" if arm else
+               "no arm for `values`: ToMultiSet(values)._vars is empty, so `VALUES ?a { :y 0 } OPTIONAL { VALUES ?a { :x \"\" } }` returns no row at all (each left row must survive: nothing on the right is compatible with it)", node=av)
+
+    # one rule, one layer (DESIGN §14.2): a rule that loses its anchor on the tree or on one view does not take its neighbours with it
+    for f_ in (_rule_h, _rule_i):
+        _layer(rep, f_, repo)
 
 
 _run_base2 = run
@@ -471,59 +597,66 @@ _run_base4 = run
 def run(repo: Repo, rep: Report) -> None:  # noqa: F811
     _layer(rep, _run_base4, repo)
     op = repo.mod("rdflib.plugins.sparql.operators")
-    # ------------------------------------------------------------------ (l)
-    rep.rule("C04.l-regex-flags-are-passed-as-flags",
-             "every call of re.sub / re.subn in the package passes at most three positional arguments and re.split at most two: the next positional parameter of these functions "
-             "is `count` / `maxsplit`, not `flags` (a fact of the standard library). REPLACE(str, pattern, repl, \"i\") evaluated through re.sub(p, r, s, cFlag) runs case-sensitively "
-             "and replaces at most cFlag occurrences", floor=5)
-    for name, mod in sorted(repo.modules.items()):
-        for c in ast.walk(mod.tree):
-            if isinstance(c, ast.Call) and isinstance(c.func, ast.Attribute) and isinstance(c.func.value, ast.Name) and c.func.value.id == "re" and c.func.attr in ("sub", "subn", "split"):
-                limit = 3 if c.func.attr in ("sub", "subn") else 2
-                ok = len(c.args) <= limit
-                rep.ob("C04.l-regex-flags-are-passed-as-flags", mod, mod.qual_of(c) or "<module>", c, ok,
-                       "" if ok else "the %s positional argument of re.%s is `%s`: %s is used as a count and the flags stay 0" % (
-                           "4th" if limit == 3 else "3rd", c.func.attr, "count" if limit == 3 else "maxsplit", norm(c.args[limit])), node=c)
+    def _rule_l(repo: Repo, rep: Report) -> None:
+        # ------------------------------------------------------------------ (l)
+        rep.rule("C04.l-regex-flags-are-passed-as-flags",
+                 "every call of re.sub / re.subn in the package passes at most three positional arguments and re.split at most two: the next positional parameter of these functions "
+                 "is `count` / `maxsplit`, not `flags` (a fact of the standard library). REPLACE(str, pattern, repl, \"i\") evaluated through re.sub(p, r, s, cFlag) runs case-sensitively "
+                 "and replaces at most cFlag occurrences", floor=5)
+        for name, mod in sorted(repo.modules.items()):
+            for c in ast.walk(mod.tree):
+                if isinstance(c, ast.Call) and isinstance(c.func, ast.Attribute) and isinstance(c.func.value, ast.Name) and c.func.value.id == "re" and c.func.attr in ("sub", "subn", "split"):
+                    limit = 3 if c.func.attr in ("sub", "subn") else 2
+                    ok = len(c.args) <= limit
+                    rep.ob("C04.l-regex-flags-are-passed-as-flags", mod, mod.qual_of(c) or "<module>", c, ok,
+                           "" if ok else "the %s positional argument of re.%s is `%s`: %s is used as a count and the flags stay 0" % (
+                               "4th" if limit == 3 else "3rd", c.func.attr, "count" if limit == 3 else "maxsplit", norm(c.args[limit])), node=c)
 
-    # ------------------------------------------------------------------ (m)
-    rep.rule("C04.m-ill-typed-numbers-are-type-errors",
-             "operators.numeric(), through which every arithmetic operator, numeric comparison and numeric built-in obtains its operands, raises SPARQLTypeError for a literal "
-             "with a numeric datatype whose lexical form has no value (Literal.value is None, e.g. \"abc\"^^xsd:integer): Literal.toPython() hands such a literal back as itself, "
-             "and arithmetic on it recurses until the interpreter gives up instead of producing a SPARQL error", floor=1)
-    nf = op.func("numeric")
-    rets = [r for r in own_nodes(nf) if isinstance(r, ast.Return) and r.value is not None and "toPython" in norm(r.value)]
-    if not rets:
-        raise AnalysisError("operators.numeric: `return expr.toPython()` not found")
-    par = nf.args.args[0].arg
-    for r in rets:
-        guard = [n for n in own_nodes(nf) if isinstance(n, ast.If) and n.lineno < r.lineno and any(isinstance(x, ast.Raise) for x in n.body)
-                 and any(isinstance(c, ast.Compare) and isinstance(c.ops[0], ast.Is) and norm(c.left) == "%s.value" % par for c in ast.walk(n.test)) or
-                 (isinstance(n, ast.If) and n.lineno < r.lineno and any(isinstance(x, ast.Raise) for x in n.body) and "ill_typed" in norm(n.test))]
-        rep.ob("C04.m-ill-typed-numbers-are-type-errors", op, "numeric", r, bool(guard),
-               "a literal without a value is rejected first" if guard else
-               "numeric() returns toPython() of an ill-typed literal, which is the Literal itself: `\"abc\"^^xsd:integer + 1` ends in RecursionError (the query raises), isNumeric() answers true", node=r)
+    def _rule_m(repo: Repo, rep: Report) -> None:
+        # ------------------------------------------------------------------ (m)
+        rep.rule("C04.m-ill-typed-numbers-are-type-errors",
+                 "operators.numeric(), through which every arithmetic operator, numeric comparison and numeric built-in obtains its operands, raises SPARQLTypeError for a literal "
+                 "with a numeric datatype whose lexical form has no value (Literal.value is None, e.g. \"abc\"^^xsd:integer): Literal.toPython() hands such a literal back as itself, "
+                 "and arithmetic on it recurses until the interpreter gives up instead of producing a SPARQL error", floor=1)
+        nf = op.func("numeric")
+        rets = [r for r in own_nodes(nf) if isinstance(r, ast.Return) and r.value is not None and "toPython" in norm(r.value)]
+        if not rets:
+            raise AnalysisError("operators.numeric: `return expr.toPython()` not found")
+        par = nf.args.args[0].arg
+        for r in rets:
+            guard = [n for n in own_nodes(nf) if isinstance(n, ast.If) and n.lineno < r.lineno and any(isinstance(x, ast.Raise) for x in n.body)
+                     and any(isinstance(c, ast.Compare) and isinstance(c.ops[0], ast.Is) and norm(c.left) == "%s.value" % par for c in ast.walk(n.test)) or
+                     (isinstance(n, ast.If) and n.lineno < r.lineno and any(isinstance(x, ast.Raise) for x in n.body) and "ill_typed" in norm(n.test))]
+            rep.ob("C04.m-ill-typed-numbers-are-type-errors", op, "numeric", r, bool(guard),
+                   "a literal without a value is rejected first" if guard else
+                   "numeric() returns toPython() of an ill-typed literal, which is the Literal itself: `\"abc\"^^xsd:integer + 1` ends in RecursionError (the query raises), isNumeric() answers true", node=r)
 
-    # ------------------------------------------------------------------ (n)
-    rep.rule("C04.n-substr-positions-are-clamped",
-             "Builtin_SUBSTR implements fn:substring: positions are 1-based and positions below 1 do not exist. A slice bound computed from the query's numbers is clamped "
-             "(max(...)) before it is used: Python reads a negative bound as `from the end`, so SUBSTR(\"hello\", 0) would be \"o\"", floor=1)
-    sf = op.func("Builtin_SUBSTR")
-    slices = [n for n in own_nodes(sf) if isinstance(n, ast.Subscript) and isinstance(n.slice, ast.Slice)]
-    if not slices:
-        raise AnalysisError("Builtin_SUBSTR: slice not found")
-    for sl in slices:
-        bounds = [b for b in (sl.slice.lower, sl.slice.upper) if b is not None]
-        bad = []
-        for b in bounds:
-            if isinstance(b, ast.Name):
-                defs = [a.value for a in own_nodes(sf) if isinstance(a, ast.Assign) and isinstance(a.targets[0], ast.Name) and a.targets[0].id == b.id]
-                clamped = all(isinstance(d, ast.Constant) and d.value is None or any(isinstance(c, ast.Call) and norm(c.func) == "max" for c in ast.walk(d)) for d in defs) and bool(defs)
-            else:
-                clamped = any(isinstance(c, ast.Call) and norm(c.func) == "max" for c in ast.walk(b))
-            if not clamped:
-                bad.append(norm(b))
-        rep.ob("C04.n-substr-positions-are-clamped", op, "Builtin_SUBSTR", sl, not bad,
-               "bounds clamped" if not bad else "slice bound(s) %s can be negative: SUBSTR(\"hello\", 0) reads the string from the end (\"o\" instead of \"hello\"), SUBSTR(\"hello\", 0, 3) is \"\" instead of \"he\"" % bad, node=sl)
+    def _rule_n(repo: Repo, rep: Report) -> None:
+        # ------------------------------------------------------------------ (n)
+        rep.rule("C04.n-substr-positions-are-clamped",
+                 "Builtin_SUBSTR implements fn:substring: positions are 1-based and positions below 1 do not exist. A slice bound computed from the query's numbers is clamped "
+                 "(max(...)) before it is used: Python reads a negative bound as `from the end`, so SUBSTR(\"hello\", 0) would be \"o\"", floor=1)
+        sf = op.func("Builtin_SUBSTR")
+        slices = [n for n in own_nodes(sf) if isinstance(n, ast.Subscript) and isinstance(n.slice, ast.Slice)]
+        if not slices:
+            raise AnalysisError("Builtin_SUBSTR: slice not found")
+        for sl in slices:
+            bounds = [b for b in (sl.slice.lower, sl.slice.upper) if b is not None]
+            bad = []
+            for b in bounds:
+                if isinstance(b, ast.Name):
+                    defs = [a.value for a in own_nodes(sf) if isinstance(a, ast.Assign) and isinstance(a.targets[0], ast.Name) and a.targets[0].id == b.id]
+                    clamped = all(isinstance(d, ast.Constant) and d.value is None or any(isinstance(c, ast.Call) and norm(c.func) == "max" for c in ast.walk(d)) for d in defs) and bool(defs)
+                else:
+                    clamped = any(isinstance(c, ast.Call) and norm(c.func) == "max" for c in ast.walk(b))
+                if not clamped:
+                    bad.append(norm(b))
+            rep.ob("C04.n-substr-positions-are-clamped", op, "Builtin_SUBSTR", sl, not bad,
+                   "bounds clamped" if not bad else "slice bound(s) %s can be negative: SUBSTR(\"hello\", 0) reads the string from the end (\"o\" instead of \"hello\"), SUBSTR(\"hello\", 0, 3) is \"\" instead of \"he\"" % bad, node=sl)
+
+    # one rule, one layer (DESIGN §14.2): a rule that loses its anchor on the tree or on one view does not take its neighbours with it
+    for f_ in (_rule_l, _rule_m, _rule_n):
+        _layer(rep, f_, repo)
 
 
 _run_base5 = run
@@ -555,429 +688,444 @@ def run(repo: Repo, rep: Report) -> None:  # noqa: F811
                 return r
         return None
 
-    # ------------------------------------------------------------------ (o)
-    # An *expression* position of the translator holds whatever the grammar's PrimaryExpression admits, including a bare
-    # term: and_(x) is x, translateExists(x) is x for a non-EXISTS x.  Literal(false) / Literal(0) / Literal("") are falsy.
-    rep.rule("C04.o-translator-decides-absent-expression-by-identity",
-             "in the translator (algebra.py) a value whose static type is `<expression> | None` (Expr, Literal, Node ...) is tested for absence by identity "
-             "(`is None` / `is not None`), never by truthiness: an expression slot may hold a bare term, and the constant filters FILTER(false), FILTER(0), "
-             "FILTER(\"\") are falsy Python objects - `if filters:` drops them and `SELECT * { ?s ?p ?o FILTER(false) }` returns every triple", floor=1)
-    EXPR_BASES = {"rdflib.plugins.sparql.parserutils.Expr", "rdflib.term.Literal"}
-    EXPR_EXACT = {"rdflib.term.Node", "rdflib.term.Identifier"}
+    def _rule_o(repo: Repo, rep: Report) -> None:
+        # ------------------------------------------------------------------ (o)
+        # An *expression* position of the translator holds whatever the grammar's PrimaryExpression admits, including a bare
+        # term: and_(x) is x, translateExists(x) is x for a non-EXISTS x.  Literal(false) / Literal(0) / Literal("") are falsy.
+        rep.rule("C04.o-translator-decides-absent-expression-by-identity",
+                 "in the translator (algebra.py) a value whose static type is `<expression> | None` (Expr, Literal, Node ...) is tested for absence by identity "
+                 "(`is None` / `is not None`), never by truthiness: an expression slot may hold a bare term, and the constant filters FILTER(false), FILTER(0), "
+                 "FILTER(\"\") are falsy Python objects - `if filters:` drops them and `SELECT * { ?s ?p ?o FILTER(false) }` returns every triple", floor=1)
+        EXPR_BASES = {"rdflib.plugins.sparql.parserutils.Expr", "rdflib.term.Literal"}
+        EXPR_EXACT = {"rdflib.term.Node", "rdflib.term.Identifier"}
 
-    def _expr_optional(e: ast.AST) -> bool:
-        tf = T.type_of(alg.name, e)
-        return bool(tf and tf.optional and any(i in EXPR_EXACT or any(b in EXPR_BASES for b in T.mro(i)) for i in tf.items))
+        def _expr_optional(e: ast.AST) -> bool:
+            tf = T.type_of(alg.name, e)
+            return bool(tf and tf.optional and any(i in EXPR_EXACT or any(b in EXPR_BASES for b in T.mro(i)) for i in tf.items))
 
-    for q, f in alg.functions():
-        if "." in q:
-            continue
-        rep.analysed("%s:%s" % (alg.rel, q))
-        for n in own_nodes(f, include_nested=True):
-            t = _identity_target(n)
-            if t is not None and _expr_optional(t):
-                rep.ob("C04.o-translator-decides-absent-expression-by-identity", alg, q, n, True, "absence of the expression decided by identity", node=n)
-        for e, owner, kind in truthy.bool_contexts(f):
-            if isinstance(e, (ast.Compare, ast.Constant)) or not _expr_optional(e):
-                continue
-            rep.ob("C04.o-translator-decides-absent-expression-by-identity", alg, q, "%s [in %s]" % (norm(e), kind), False,
-                   "truthiness of %s : %s conflates `no expression` with an expression that is a falsy term: FILTER(false), FILTER(0), FILTER(\"\") "
-                   "are dropped from the algebra and every solution passes" % (norm(e), T.type_of(alg.name, e)), node=e)
-
-    # ------------------------------------------------------------------ (p)
-    # CompValue is an OrderedDict of the Params that matched: a Comp all of whose Params are optional comes out EMPTY, i.e.
-    # falsy, although the clause is present.  Which Comps can be empty is computed from the grammar (parser.py).
-    rep.rule("C04.p-possibly-empty-clause-is-tested-by-identity",
-             "an attribute of a parse-tree node that holds a Comp which can match without setting any Param (computed from the grammar: every Param sits under "
-             "Optional/ZeroOrMore or in one branch of an alternative only) is tested for presence by identity, not by truthiness: the CompValue of "
-             "`VALUES () { }` is an empty OrderedDict, so `if q.valuesClause:` ignores a trailing VALUES block that has no solutions and "
-             "`SELECT * { ?s ?p ?o } VALUES () { }` returns rows instead of none", floor=1)
-    gram = H.Grammar(par)
-    maybe_empty = gram.maybe_empty_comp_params()
-    if "valuesClause" not in maybe_empty:
-        raise AnalysisError("grammar analysis: Param valuesClause no longer holds a possibly-empty Comp (rule C04.p premise changed): %s" % maybe_empty)
-
-    def _clause_attr(fn: ast.AST, e: ast.AST):
-        """e is `<node>.<param>` (or a local bound only to such reads) for a Param that may hold an empty Comp"""
-        cands = [e]
-        if isinstance(e, ast.Name):
-            cands = H.local_defs(fn, e.id)
-            if not cands:
-                return None
-        hit = None
-        for c in cands:
-            if isinstance(c, ast.Attribute) and c.attr in maybe_empty:
-                hit = c.attr
-            else:
-                return None
-        return hit
-
-    for mod in (alg, ev):
-        for q, f in mod.functions():
+        for q, f in alg.functions():
             if "." in q:
                 continue
+            rep.analysed("%s:%s" % (alg.rel, q))
             for n in own_nodes(f, include_nested=True):
                 t = _identity_target(n)
-                a = _clause_attr(f, t) if t is not None else None
-                if a:
-                    rep.ob("C04.p-possibly-empty-clause-is-tested-by-identity", mod, q, n, True, "presence of the %s clause decided by identity" % maybe_empty[a], node=n)
+                if t is not None and _expr_optional(t):
+                    rep.ob("C04.o-translator-decides-absent-expression-by-identity", alg, q, n, True, "absence of the expression decided by identity", node=n)
             for e, owner, kind in truthy.bool_contexts(f):
-                a = _clause_attr(f, e)
-                if a:
-                    rep.ob("C04.p-possibly-empty-clause-is-tested-by-identity", mod, q, "%s [in %s]" % (norm(e), kind), False,
-                           "%s holds a %s node, which is an EMPTY (falsy) mapping when none of its optional parts matched (e.g. `VALUES () { }`): "
-                           "truthiness treats the present clause as absent" % (norm(e), maybe_empty[a]), node=e)
-
-    # ------------------------------------------------------------------ (q)
-    # evalPart / evalMultiset dispatch on `<part>.name`; whatever is stored in a part slot (p, p1, p2) must be a node.
-    rep.rule("C04.q-part-slots-hold-algebra-nodes",
-             "what an algebra-node constructor of algebra.py stores in a part slot (the keys p / p1 / p2, which evalPart and evalMultiset dispatch on by `.name`) is "
-             "an algebra node on every path: when the argument is the result of a translator function whose declared type admits a list, every `return` of that "
-             "function yields a CompValue. `VALUES ?x { }` used to come back as a bare list from translateValues, and ToMultiSet(<list>) made evalMultiset fail "
-             "with AttributeError instead of producing the empty multiset", floor=20)
-    PART_KEYS = {"p", "p1", "p2"}
-    ctors: dict[str, dict] = {}   # constructor -> {param name: key} for part slots
-    for q, f in alg.functions():
-        if "." in q:
-            continue
-        rets = [r for r in own_nodes(f) if isinstance(r, ast.Return) and r.value is not None]
-        if rets and all(isinstance(r.value, ast.Call) and norm(r.value.func) == "CompValue" for r in rets):
-            slots = {}
-            for r in rets:
-                for k in r.value.keywords:
-                    if k.arg in PART_KEYS and isinstance(k.value, ast.Name) and k.value.id in H.params_of(f):
-                        slots[k.value.id] = k.arg
-            if slots:
-                ctors[q] = {"params": H.params_of(f), "slots": slots}
-    if len(ctors) < 8:
-        raise AnalysisError("algebra.py: expected >= 8 node constructors with part slots, found %s" % sorted(ctors))
-    NODE = "rdflib.plugins.sparql.parserutils.CompValue"
-
-    def _is_node_type(e: ast.AST):
-        tf = T.type_of(alg.name, e)
-        if tf is None or (tf.any and not tf.items):
-            return None  # untyped (attribute of a CompValue): not decided here
-        return all(NODE in T.mro(i) for i in tf.items)
-
-    for q, f in alg.functions():
-        for c in own_nodes(f):
-            if not (isinstance(c, ast.Call) and isinstance(c.func, ast.Name) and c.func.id in ctors):
-                continue
-            info = ctors[c.func.id]
-            given = [(info["params"][i], a) for i, a in enumerate(c.args) if i < len(info["params"])] + [(k.arg, k.value) for k in c.keywords]
-            for pname, a in given:
-                if pname not in info["slots"]:
+                if isinstance(e, (ast.Compare, ast.Constant)) or not _expr_optional(e):
                     continue
-                verdict = _is_node_type(a)
-                why = "typed as a node"
-                if verdict is None:
-                    why = "untyped (read from a node)"
-                    verdict = True
-                elif verdict is False and isinstance(a, ast.Call) and isinstance(a.func, ast.Name) and alg.has(a.func.id):
-                    callee = alg.func(a.func.id)
-                    bad = [r for r in own_nodes(callee) if isinstance(r, ast.Return) and (r.value is None or _is_node_type(r.value) is False)]
-                    verdict = not bad
-                    why = "every return of %s is a node" % a.func.id if verdict else \
-                        "%s can return %s, which is not an algebra node: %s(...) stores it in slot `%s` and evaluation fails on `.name` (e.g. VALUES ?x { })" % (
-                            a.func.id, [norm(r)[:40] for r in bad], c.func.id, info["slots"][pname])
-                elif verdict is False:
-                    why = "%s : %s is not an algebra node" % (norm(a)[:40], T.type_of(alg.name, a))
-                rep.ob("C04.q-part-slots-hold-algebra-nodes", alg, q, "%s(%s=%s)" % (c.func.id, pname, norm(a)[:60]), verdict, why, node=c)
+                rep.ob("C04.o-translator-decides-absent-expression-by-identity", alg, q, "%s [in %s]" % (norm(e), kind), False,
+                       "truthiness of %s : %s conflates `no expression` with an expression that is a falsy term: FILTER(false), FILTER(0), FILTER(\"\") "
+                       "are dropped from the algebra and every solution passes" % (norm(e), T.type_of(alg.name, e)), node=e)
 
-    # ------------------------------------------------------------------ (r)
-    rep.rule("C04.r-forget-keeps-the-parts-own-variables",
-             "every `<solution>.forget(<ctx>, ...)` of the evaluator (the step that hides bindings pushed in from the enclosing join before an expression is "
-             "evaluated) passes `_except=` a set computed from the `_vars` annotation of the part(s) whose expression is evaluated: variables the part itself "
-             "binds are in scope for its expression even when the enclosing join has pushed in a value for them. Without it, in "
-             "`?s :p ?x . OPTIONAL { ?s :q ?y FILTER(?x = ?y) }` joined after a pattern binding ?x the condition sees ?x unbound and the optional part never matches", floor=3)
-    for mod in (ev, repo.mod("rdflib.plugins.sparql.evalutils"), op, repo.mod("rdflib.plugins.sparql.aggregates"), repo.mod("rdflib.plugins.sparql.update")):
-        for q, f in mod.functions():
-            for c in own_nodes(f):
-                if not (isinstance(c, ast.Call) and isinstance(c.func, ast.Attribute) and c.func.attr == "forget" and (c.args or c.keywords)):
+    def _rule_p(repo: Repo, rep: Report) -> None:
+        # ------------------------------------------------------------------ (p)
+        # CompValue is an OrderedDict of the Params that matched: a Comp all of whose Params are optional comes out EMPTY, i.e.
+        # falsy, although the clause is present.  Which Comps can be empty is computed from the grammar (parser.py).
+        rep.rule("C04.p-possibly-empty-clause-is-tested-by-identity",
+                 "an attribute of a parse-tree node that holds a Comp which can match without setting any Param (computed from the grammar: every Param sits under "
+                 "Optional/ZeroOrMore or in one branch of an alternative only) is tested for presence by identity, not by truthiness: the CompValue of "
+                 "`VALUES () { }` is an empty OrderedDict, so `if q.valuesClause:` ignores a trailing VALUES block that has no solutions and "
+                 "`SELECT * { ?s ?p ?o } VALUES () { }` returns rows instead of none", floor=1)
+        gram = H.Grammar(par)
+        maybe_empty = gram.maybe_empty_comp_params()
+        if "valuesClause" not in maybe_empty:
+            raise AnalysisError("grammar analysis: Param valuesClause no longer holds a possibly-empty Comp (rule C04.p premise changed): %s" % maybe_empty)
+
+        def _clause_attr(fn: ast.AST, e: ast.AST):
+            """e is `<node>.<param>` (or a local bound only to such reads) for a Param that may hold an empty Comp"""
+            cands = [e]
+            if isinstance(e, ast.Name):
+                cands = H.local_defs(fn, e.id)
+                if not cands:
+                    return None
+            hit = None
+            for c in cands:
+                if isinstance(c, ast.Attribute) and c.attr in maybe_empty:
+                    hit = c.attr
+                else:
+                    return None
+            return hit
+
+        for mod in (alg, ev):
+            for q, f in mod.functions():
+                if "." in q:
                     continue
-                exc = [k.value for k in c.keywords if k.arg == "_except"] + list(c.args[1:2])
-                ok = bool(exc) and any(isinstance(x, ast.Attribute) and x.attr == "_vars" for x in H.closure_nodes(f, exc[0]))
-                rep.ob("C04.r-forget-keeps-the-parts-own-variables", mod, q, c, ok,
-                       "keeps the variables of the part" if ok else
-                       "%s: every variable bound in the incoming context is hidden from the expression, including the ones this part binds itself "
-                       "(a pushed-in binding of a variable the OPTIONAL/FILTER/BIND expression uses makes the expression err)" % (
-                           "no _except" if not exc else "_except=%s is not computed from a part's _vars" % norm(exc[0])[:40]), node=c)
+                for n in own_nodes(f, include_nested=True):
+                    t = _identity_target(n)
+                    a = _clause_attr(f, t) if t is not None else None
+                    if a:
+                        rep.ob("C04.p-possibly-empty-clause-is-tested-by-identity", mod, q, n, True, "presence of the %s clause decided by identity" % maybe_empty[a], node=n)
+                for e, owner, kind in truthy.bool_contexts(f):
+                    a = _clause_attr(f, e)
+                    if a:
+                        rep.ob("C04.p-possibly-empty-clause-is-tested-by-identity", mod, q, "%s [in %s]" % (norm(e), kind), False,
+                               "%s holds a %s node, which is an EMPTY (falsy) mapping when none of its optional parts matched (e.g. `VALUES () { }`): "
+                               "truthiness treats the present clause as absent" % (norm(e), maybe_empty[a]), node=e)
 
-    # ------------------------------------------------------------------ (s)
-    rep.rule("C04.s-pushed-down-solution-is-merged-before-use",
-             "a solution produced by evaluating a part under `ctx.thaw(<left solution>)` (the push-down form of a join) may have lost the left solution's bindings "
-             "again (a sub-SELECT projects them away), so inside the loop it is only ever used as `<b>.merge(<left solution>)`, or rebound to that merge before any "
-             "other use - in particular before the LeftJoin condition is evaluated over it: in `?s :p ?x OPTIONAL { { SELECT ?y { ?s :q ?y } } FILTER(?x = ?y) }`-like "
-             "queries the condition must see ?x", floor=3)
-    for mod in (ev, op):
-        for q, f in mod.functions():
+    def _rule_q(repo: Repo, rep: Report) -> None:
+        # ------------------------------------------------------------------ (q)
+        # evalPart / evalMultiset dispatch on `<part>.name`; whatever is stored in a part slot (p, p1, p2) must be a node.
+        rep.rule("C04.q-part-slots-hold-algebra-nodes",
+                 "what an algebra-node constructor of algebra.py stores in a part slot (the keys p / p1 / p2, which evalPart and evalMultiset dispatch on by `.name`) is "
+                 "an algebra node on every path: when the argument is the result of a translator function whose declared type admits a list, every `return` of that "
+                 "function yields a CompValue. `VALUES ?x { }` used to come back as a bare list from translateValues, and ToMultiSet(<list>) made evalMultiset fail "
+                 "with AttributeError instead of producing the empty multiset", floor=20)
+        PART_KEYS = {"p", "p1", "p2"}
+        ctors: dict[str, dict] = {}   # constructor -> {param name: key} for part slots
+        for q, f in alg.functions():
             if "." in q:
                 continue
-            loops = []  # (target, iter, [body nodes])
-            for n in own_nodes(f, include_nested=True):
-                if isinstance(n, ast.For):
-                    loops.append((n.target, n.iter, n.body, n))
-                elif isinstance(n, (ast.GeneratorExp, ast.ListComp, ast.SetComp)) and len(n.generators) == 1:
-                    g0 = n.generators[0]
-                    loops.append((g0.target, g0.iter, [n.elt] + list(g0.ifs), n))
-            for tgt, it, body, owner in loops:
-                if not (isinstance(it, ast.Call) and norm(it.func) == "evalPart" and it.args and isinstance(tgt, ast.Name)):
-                    continue
-                lefts = {norm(c.args[0]) for c in H.closure_nodes(f, it.args[0], depth=2)
-                         if isinstance(c, ast.Call) and isinstance(c.func, ast.Attribute) and c.func.attr == "thaw" and c.args}
-                if not lefts:
-                    continue
-                uses = sorted((u for b in body for u in ast.walk(b) if isinstance(u, ast.Name) and u.id == tgt.id and isinstance(u.ctx, ast.Load)),
-                              key=lambda u: (u.lineno, u.col_offset))
-                bad = None
-                for u in uses:
-                    p1 = mod.parent.get(id(u))
-                    p2 = mod.parent.get(id(p1)) if p1 is not None else None
-                    merged = isinstance(p1, ast.Attribute) and p1.attr == "merge" and p1.value is u and isinstance(p2, ast.Call) and p2.func is p1 \
-                        and len(p2.args) == 1 and norm(p2.args[0]) in lefts
-                    if not merged:
-                        bad = u
-                        break
-                    p3 = mod.parent.get(id(p2))
-                    if isinstance(p3, ast.Assign) and p3.value is p2 and len(p3.targets) == 1 and norm(p3.targets[0]) == tgt.id and any(p3 is s for s in body):
-                        break  # rebound to the merge at the top of the loop body: later uses see the merged solution
-                rep.ob("C04.s-pushed-down-solution-is-merged-before-use", mod, q, "for %s in %s" % (norm(tgt), norm(it)[:60]), bad is None,
-                       "used only merged with %s" % sorted(lefts) if bad is None else
-                       "the solution of the pushed-down part is used unmerged in `%s`: bindings of the left solution %s that a sub-SELECT on the right projected away "
-                       "are missing there (a LeftJoin condition over them errs, so the OPTIONAL part is lost)" % (norm(H.enclosing_stmt(mod, bad) if isinstance(owner, ast.For) else owner)[:70], sorted(lefts)),
-                       node=owner, vacuous=not uses)
+            rets = [r for r in own_nodes(f) if isinstance(r, ast.Return) and r.value is not None]
+            if rets and all(isinstance(r.value, ast.Call) and norm(r.value.func) == "CompValue" for r in rets):
+                slots = {}
+                for r in rets:
+                    for k in r.value.keywords:
+                        if k.arg in PART_KEYS and isinstance(k.value, ast.Name) and k.value.id in H.params_of(f):
+                            slots[k.value.id] = k.arg
+                if slots:
+                    ctors[q] = {"params": H.params_of(f), "slots": slots}
+        if len(ctors) < 8:
+            raise AnalysisError("algebra.py: expected >= 8 node constructors with part slots, found %s" % sorted(ctors))
+        NODE = "rdflib.plugins.sparql.parserutils.CompValue"
 
-    # ------------------------------------------------------------------ (t)
-    rep.rule("C04.t-logical-connective-survives-an-operand-error",
-             "in operators.py every `EBV(<x>)` applied to the variable of an iteration over operands (the n-ary connectives && and ||) is a statement-loop body "
-             "inside a `try` whose SPARQLError handler stays in the loop (no raise/return/break): an operand that errs must not end the evaluation, because a later "
-             "operand can still decide the result (error && false = false, error || true = true, SPARQL 17.2). A comprehension `all(EBV(x) for x in ...)` lets the "
-             "first error escape: FILTER(?unbound > 1 && false) inside NOT(...) / BIND gives error instead of false", floor=2)
-    ERRS = {"SPARQLError", "Exception", "BaseException"}
-    for q, f in op.functions():
-        if "." in q:
-            continue
-        iter_vars: dict[str, ast.AST] = {}
-        for n in own_nodes(f, include_nested=True):
-            if isinstance(n, ast.For) and isinstance(n.target, ast.Name):
-                iter_vars[n.target.id] = n
-            elif isinstance(n, ast.comprehension) and isinstance(n.target, ast.Name):
-                iter_vars[n.target.id] = n
-        for c in own_nodes(f, include_nested=True):
-            if not (isinstance(c, ast.Call) and norm(c.func) == "EBV" and len(c.args) == 1 and isinstance(c.args[0], ast.Name) and c.args[0].id in iter_vars):
-                continue
-            loop = iter_vars[c.args[0].id]
-            ok, why = False, ""
-            if not isinstance(loop, ast.For):
-                why = "EBV is applied inside a comprehension: the first operand error leaves it"
-            else:
-                tries = [p for p in op.parents(c) if isinstance(p, ast.Try) and any(p is x for x in ast.walk(loop))]
-                tries = [t for t in tries if any(c is x for s_ in t.body for x in ast.walk(s_))]
-                good = [t for t in tries for h in t.handlers if H.handler_catches(h, ERRS)
-                        and not any(isinstance(x, (ast.Raise, ast.Return, ast.Break)) for s_ in h.body for x in ast.walk(s_))]
-                ok = bool(good)
-                why = "operand errors are caught inside the loop" if ok else "no try/except SPARQLError around EBV inside the loop, or its handler leaves the loop"
-            rep.ob("C04.t-logical-connective-survives-an-operand-error", op, q, c, ok,
-                   why if ok else why + ": `error && false` / `error || true` give an error instead of false / true", node=c)
+        def _is_node_type(e: ast.AST):
+            tf = T.type_of(alg.name, e)
+            if tf is None or (tf.any and not tf.items):
+                return None  # untyped (attribute of a CompValue): not decided here
+            return all(NODE in T.mro(i) for i in tf.items)
 
-    # ------------------------------------------------------------------ (u)
-    # CompValue.__getattr__/__getitem__ evaluate the stored operand at once (value(ctx, v, variables=False)) and raise
-    # NotBoundError for an unbound variable; only .get(name, variables=True) hands the Variable back.
-    rep.rule("C04.u-per-operand-error-handling-reads-operands-unevaluated",
-             "an evaluation function of operators.py that handles errors PER OPERAND (a loop over operands whose body has try/except SPARQLError) obtains the iterated "
-             "operands with `<e>.get(<name>, variables=True)` on every path that reaches the loop, never with `<e>.<name>` / `<e>[<name>]`: the attribute form "
-             "evaluates all operands at once and raises NotBoundError for an unbound variable before the loop is entered, so `?unbound || true` (true), "
-             "`false && ?unbound` (false) and `1 IN (?unbound, 1)` (true) abort as errors", floor=3)
-    for q, f in op.functions():
-        if "." in q or not f.args.args:
-            continue
-        p0 = f.args.args[0].arg
-        g = None
-        for lp in own_nodes(f):
-            if not (isinstance(lp, ast.For) and any(isinstance(s_, ast.Try) and any(H.handler_catches(h, {"SPARQLError"}) and h.type is not None for h in s_.handlers)
-                                                    for s_ in ast.walk(lp) if s_ is not lp)):
-                continue
-            names = sorted({n.id for n in ast.walk(lp.iter) if isinstance(n, ast.Name) and isinstance(n.ctx, ast.Load)})
-            if not names:
-                continue
-            if g is None:
-                g = CFG(f)
-            raw, lazy = [], 0
-            for nm in names:
-                for st in H.reaching_values(op, f, g, lp, nm):
-                    v = H.bound_value(st, nm) if st is not None else None
-                    if v is None:
+        for q, f in alg.functions():
+            for c in own_nodes(f):
+                if not (isinstance(c, ast.Call) and isinstance(c.func, ast.Name) and c.func.id in ctors):
+                    continue
+                info = ctors[c.func.id]
+                given = [(info["params"][i], a) for i, a in enumerate(c.args) if i < len(info["params"])] + [(k.arg, k.value) for k in c.keywords]
+                for pname, a in given:
+                    if pname not in info["slots"]:
                         continue
-                    for x in ast.walk(v):
-                        if isinstance(x, ast.Subscript) and isinstance(x.value, ast.Name) and x.value.id == p0:
-                            raw.append(x)
-                        if isinstance(x, ast.Attribute) and isinstance(x.value, ast.Name) and x.value.id == p0:
-                            call = op.parent.get(id(x))
-                            is_get = x.attr == "get" and isinstance(call, ast.Call) and call.func is x
-                            if is_get and any(k.arg == "variables" and isinstance(k.value, ast.Constant) and k.value.value is True for k in call.keywords):
-                                lazy += 1
-                            elif not (isinstance(call, ast.Call) and call.func is x and x.attr not in ("get",)):
-                                raw.append(x)
-            if not raw and not lazy:
-                continue  # the loop does not iterate operands of the expression node
-            rep.ob("C04.u-per-operand-error-handling-reads-operands-unevaluated", op, q, "for %s in %s" % (norm(lp.target), norm(lp.iter)), not raw,
-                   "operands fetched with variables=True" if not raw else
-                   "the iterated operands come from %s, which evaluates them eagerly: an unbound variable among them raises NotBoundError for the whole expression "
-                   "instead of being that operand's error" % sorted({norm(x) for x in raw}), node=lp)
+                    verdict = _is_node_type(a)
+                    why = "typed as a node"
+                    if verdict is None:
+                        why = "untyped (read from a node)"
+                        verdict = True
+                    elif verdict is False and isinstance(a, ast.Call) and isinstance(a.func, ast.Name) and alg.has(a.func.id):
+                        callee = alg.func(a.func.id)
+                        bad = [r for r in own_nodes(callee) if isinstance(r, ast.Return) and (r.value is None or _is_node_type(r.value) is False)]
+                        verdict = not bad
+                        why = "every return of %s is a node" % a.func.id if verdict else \
+                            "%s can return %s, which is not an algebra node: %s(...) stores it in slot `%s` and evaluation fails on `.name` (e.g. VALUES ?x { })" % (
+                                a.func.id, [norm(r)[:40] for r in bad], c.func.id, info["slots"][pname])
+                    elif verdict is False:
+                        why = "%s : %s is not an algebra node" % (norm(a)[:40], T.type_of(alg.name, a))
+                    rep.ob("C04.q-part-slots-hold-algebra-nodes", alg, q, "%s(%s=%s)" % (c.func.id, pname, norm(a)[:60]), verdict, why, node=c)
 
-    # ------------------------------------------------------------------ (v)
-    rep.rule("C04.v-extend-checks-a-pushed-in-value",
-             "where the evaluator adds a binding to a solution with `<solution>.merge({<var>: <value>})` (FrozenBindings.merge overwrites silently - Extend / BIND / "
-             "(expr AS ?v)), a test that reads the binding the incoming context already has for <var> (`ctx[<var>]`, `.get(<var>)`, `<var> in ...`) guards the merge: "
-             "a lazy join pushes the left solution into the right operand, and `{ ?s :p ?v } { BIND(2 AS ?v) }` must drop the rows whose ?v is not 2 rather than "
-             "overwrite ?v and let the incompatible join succeed", floor=1)
-    for q, f in ev.functions():
-        if "." in q:
-            continue
-        g = None
-        for c in own_nodes(f):
-            if not (isinstance(c, ast.Call) and isinstance(c.func, ast.Attribute) and c.func.attr == "merge" and len(c.args) == 1 and isinstance(c.args[0], ast.Dict)):
+    def _rule_r(repo: Repo, rep: Report) -> None:
+        # ------------------------------------------------------------------ (r)
+        rep.rule("C04.r-forget-keeps-the-parts-own-variables",
+                 "every `<solution>.forget(<ctx>, ...)` of the evaluator (the step that hides bindings pushed in from the enclosing join before an expression is "
+                 "evaluated) passes `_except=` a set computed from the `_vars` annotation of the part(s) whose expression is evaluated: variables the part itself "
+                 "binds are in scope for its expression even when the enclosing join has pushed in a value for them. Without it, in "
+                 "`?s :p ?x . OPTIONAL { ?s :q ?y FILTER(?x = ?y) }` joined after a pattern binding ?x the condition sees ?x unbound and the optional part never matches", floor=3)
+        for mod in (ev, repo.mod("rdflib.plugins.sparql.evalutils"), op, repo.mod("rdflib.plugins.sparql.aggregates"), repo.mod("rdflib.plugins.sparql.update")):
+            for q, f in mod.functions():
+                for c in own_nodes(f):
+                    if not (isinstance(c, ast.Call) and isinstance(c.func, ast.Attribute) and c.func.attr == "forget" and (c.args or c.keywords)):
+                        continue
+                    exc = [k.value for k in c.keywords if k.arg == "_except"] + list(c.args[1:2])
+                    ok = bool(exc) and any(isinstance(x, ast.Attribute) and x.attr == "_vars" for x in H.closure_nodes(f, exc[0]))
+                    rep.ob("C04.r-forget-keeps-the-parts-own-variables", mod, q, c, ok,
+                           "keeps the variables of the part" if ok else
+                           "%s: every variable bound in the incoming context is hidden from the expression, including the ones this part binds itself "
+                           "(a pushed-in binding of a variable the OPTIONAL/FILTER/BIND expression uses makes the expression err)" % (
+                               "no _except" if not exc else "_except=%s is not computed from a part's _vars" % norm(exc[0])[:40]), node=c)
+
+    def _rule_s(repo: Repo, rep: Report) -> None:
+        # ------------------------------------------------------------------ (s)
+        rep.rule("C04.s-pushed-down-solution-is-merged-before-use",
+                 "a solution produced by evaluating a part under `ctx.thaw(<left solution>)` (the push-down form of a join) may have lost the left solution's bindings "
+                 "again (a sub-SELECT projects them away), so inside the loop it is only ever used as `<b>.merge(<left solution>)`, or rebound to that merge before any "
+                 "other use - in particular before the LeftJoin condition is evaluated over it: in `?s :p ?x OPTIONAL { { SELECT ?y { ?s :q ?y } } FILTER(?x = ?y) }`-like "
+                 "queries the condition must see ?x", floor=3)
+        for mod in (ev, op):
+            for q, f in mod.functions():
+                if "." in q:
+                    continue
+                loops = []  # (target, iter, [body nodes])
+                for n in own_nodes(f, include_nested=True):
+                    if isinstance(n, ast.For):
+                        loops.append((n.target, n.iter, n.body, n))
+                    elif isinstance(n, (ast.GeneratorExp, ast.ListComp, ast.SetComp)) and len(n.generators) == 1:
+                        g0 = n.generators[0]
+                        loops.append((g0.target, g0.iter, [n.elt] + list(g0.ifs), n))
+                for tgt, it, body, owner in loops:
+                    if not (isinstance(it, ast.Call) and norm(it.func) == "evalPart" and it.args and isinstance(tgt, ast.Name)):
+                        continue
+                    lefts = {norm(c.args[0]) for c in H.closure_nodes(f, it.args[0], depth=2)
+                             if isinstance(c, ast.Call) and isinstance(c.func, ast.Attribute) and c.func.attr == "thaw" and c.args}
+                    if not lefts:
+                        continue
+                    uses = sorted((u for b in body for u in ast.walk(b) if isinstance(u, ast.Name) and u.id == tgt.id and isinstance(u.ctx, ast.Load)),
+                                  key=lambda u: (u.lineno, u.col_offset))
+                    bad = None
+                    for u in uses:
+                        p1 = mod.parent.get(id(u))
+                        p2 = mod.parent.get(id(p1)) if p1 is not None else None
+                        merged = isinstance(p1, ast.Attribute) and p1.attr == "merge" and p1.value is u and isinstance(p2, ast.Call) and p2.func is p1 \
+                            and len(p2.args) == 1 and norm(p2.args[0]) in lefts
+                        if not merged:
+                            bad = u
+                            break
+                        p3 = mod.parent.get(id(p2))
+                        if isinstance(p3, ast.Assign) and p3.value is p2 and len(p3.targets) == 1 and norm(p3.targets[0]) == tgt.id and any(p3 is s for s in body):
+                            break  # rebound to the merge at the top of the loop body: later uses see the merged solution
+                    rep.ob("C04.s-pushed-down-solution-is-merged-before-use", mod, q, "for %s in %s" % (norm(tgt), norm(it)[:60]), bad is None,
+                           "used only merged with %s" % sorted(lefts) if bad is None else
+                           "the solution of the pushed-down part is used unmerged in `%s`: bindings of the left solution %s that a sub-SELECT on the right projected away "
+                           "are missing there (a LeftJoin condition over them errs, so the OPTIONAL part is lost)" % (norm(H.enclosing_stmt(mod, bad) if isinstance(owner, ast.For) else owner)[:70], sorted(lefts)),
+                           node=owner, vacuous=not uses)
+
+    def _rule_t(repo: Repo, rep: Report) -> None:
+        # ------------------------------------------------------------------ (t)
+        rep.rule("C04.t-logical-connective-survives-an-operand-error",
+                 "in operators.py every `EBV(<x>)` applied to the variable of an iteration over operands (the n-ary connectives && and ||) is a statement-loop body "
+                 "inside a `try` whose SPARQLError handler stays in the loop (no raise/return/break): an operand that errs must not end the evaluation, because a later "
+                 "operand can still decide the result (error && false = false, error || true = true, SPARQL 17.2). A comprehension `all(EBV(x) for x in ...)` lets the "
+                 "first error escape: FILTER(?unbound > 1 && false) inside NOT(...) / BIND gives error instead of false", floor=2)
+        ERRS = {"SPARQLError", "Exception", "BaseException"}
+        for q, f in op.functions():
+            if "." in q:
                 continue
-            keys = [k for k in c.args[0].keys if k is not None and not isinstance(k, ast.Constant)]
-            if not keys:
-                continue
-            if g is None:
-                g = CFG(f)
-            st = H.enclosing_stmt(ev, c)
-            for k in keys:
-                kt = norm(k)
-
-                def reads_prior(x: ast.AST) -> bool:
-                    if isinstance(x, ast.Subscript) and norm(x.slice) == kt:
-                        return True
-                    if isinstance(x, ast.Call) and isinstance(x.func, ast.Attribute) and x.func.attr == "get" and x.args and norm(x.args[0]) == kt:
-                        return True
-                    if isinstance(x, ast.Compare) and isinstance(x.ops[0], (ast.In, ast.NotIn)) and norm(x.left) == kt:
-                        return True
-                    return False
-
-                guards = []
-                for t in own_nodes(f):
-                    if isinstance(t, ast.If) and any(reads_prior(x) for x in H.closure_nodes(f, t.test)):
-                        inside = any(st is x for s_ in t.body + t.orelse for x in ast.walk(s_))
-                        exits = bool(t.body) and isinstance(t.body[-1], (ast.Continue, ast.Return, ast.Raise, ast.Break))
-                        if inside or exits:
-                            guards.append(g.node_of(t))
-                ok = bool(guards) and g.must_pass_before(g.node_of(st), guards)
-                rep.ob("C04.v-extend-checks-a-pushed-in-value", ev, q, c, ok,
-                       "guarded by a test on the prior binding of %s" % kt if ok else
-                       "%s is overwritten unconditionally: no test on the value the context already binds to it dominates the merge; a solution that is "
-                       "incompatible with the pushed-in left solution is turned into a compatible one (`{ ?s :p ?v } { BIND(2 AS ?v) }` returns every ?s)" % kt, node=c)
-
-    # ------------------------------------------------------------------ (w)
-    rep.rule("C04.w-made-up-graph-is-checked-for-existence",
-             "ConjunctiveGraph/Dataset.get_context(<id>) makes up an (empty) Graph object for ANY identifier. Where the evaluator makes such a graph the active graph "
-             "(GRAPH <iri> / GRAPH ?bound), every path from there to a yielded solution passes a test that depends on an enumeration of the dataset's graphs "
-             "(.contexts() / .graphs()): `GRAPH <urn:nosuch> { }`, `GRAPH <urn:nosuch> { OPTIONAL { ?s ?p ?o } }` or `... { BIND(1 AS ?x) }` have NO solution "
-             "when the dataset has no such graph, but the patterns match the made-up empty graph once", floor=1)
-    ENUM = {"contexts", "graphs"}
-    for q, f in ev.functions():
-        if "." in q:
-            continue
-        calls = [c for c in own_nodes(f) if isinstance(c, ast.Call) and isinstance(c.func, ast.Attribute) and c.func.attr == "get_context"]
-        if not calls:
-            continue
-        g = CFG(f)
-
-        def _enumerates(x: ast.AST) -> bool:
-            """x is a call that enumerates the dataset's graphs, directly or in the body of a module-level helper it names"""
-            if not isinstance(x, ast.Call):
-                return False
-            if isinstance(x.func, ast.Attribute) and x.func.attr in ENUM:
-                return True
-            if isinstance(x.func, ast.Name) and ev.has(x.func.id) and x.func.id != q:
-                return any(isinstance(y, ast.Call) and isinstance(y.func, ast.Attribute) and y.func.attr in ENUM for y in ast.walk(ev.get(x.func.id)))
-            return False
-
-        tests = [g.node_of(t) for t in own_nodes(f) if isinstance(t, (ast.If, ast.While)) and any(_enumerates(x) for x in H.closure_nodes(f, t.test))]
-        for c in calls:
-            src = g.node_of(H.enclosing_stmt(ev, c))
-            free = g.reach(src, avoid=tests)
-            outs = [g.nodes[i].ast for i in sorted(free) if g.nodes[i].ast is not None and g.nodes[i].kind == "stmt"
-                    and any(isinstance(x, (ast.Yield, ast.YieldFrom)) or (isinstance(x, ast.Return) and x.value is not None) for x in ast.walk(g.nodes[i].ast))]
-            any_out = any(isinstance(x, (ast.Yield, ast.YieldFrom, ast.Return)) for i in g.reach(src) if g.nodes[i].ast is not None and g.nodes[i].kind == "stmt" for x in ast.walk(g.nodes[i].ast))
-            if not any_out:
-                raise AnalysisError("%s: no solution is produced after get_context() (rule C04.w premise changed)" % q)
-            rep.ob("C04.w-made-up-graph-is-checked-for-existence", ev, q, c, not outs,
-                   "every solution is produced after an existence test over the dataset's graphs" if not outs else
-                   "`%s` is reached without any test over the dataset's graphs: for an identifier that names no graph the pattern is matched against the empty graph "
-                   "get_context() made up, and `GRAPH <urn:nosuch> { }` has one solution instead of none" % norm(outs[0])[:50], node=c)
-
-    # ------------------------------------------------------------------ (x)
-    rep.rule("C04.x-in-is-defined-through-the-equals-operator",
-             "RelationalExpression decides membership for IN / NOT IN with the same term method its operator table uses for `=` (Literal/Identifier.eq: value "
-             "equality, type error for incomparable terms), not with Python `==` (term identity): SPARQL 17.4.1.9 defines `x IN (a, b)` as `x = a || x = b`, so "
-             "`1 IN (1.0)` and `\"1\"^^xsd:integer IN (01)` are true", floor=1)
-    rf = op.func("RelationalExpression")
-    # the operator table: a table the function writes out itself or a module-level constant it reads, with a row for `=`
-    # whose value is a callable that applies a method of its first argument
-    eq_rows = []
-    for where, rows in H.tables_of(op, rf):
-        for k, v in rows:
-            if isinstance(k, ast.Constant) and k.value == "=":
-                m_ = H.method_applied_by(op, v)
-                if m_ is not None:
-                    eq_rows.append(m_)
-    if len(set(eq_rows)) != 1:
-        raise AnalysisError("RelationalExpression: row for `=` of the operator table not found (%s)" % eq_rows)
-    eq_method = eq_rows[0]
-    # the branch for IN / NOT IN: an `if` whose test is computed (through locals and module constants) from both operator
-    # names and not from `=`
-    in_branches = []
-    for n in own_nodes(rf):
-        if isinstance(n, ast.If):
-            cs = H.constants_behind(op, rf, n.test)
-            if {"IN", "NOT IN"} <= cs and "=" not in cs:
-                in_branches.append(n)
-    member_loops = [lp for b in in_branches for s_ in b.body for lp in ast.walk(s_) if isinstance(lp, ast.For)]
-    if not member_loops:
-        raise AnalysisError("RelationalExpression: loop over the members of the IN list not found")
-    for lp in member_loops:
-        deciders = [t for t in ast.walk(lp) if isinstance(t, ast.If) and any(isinstance(x, ast.Return) for s_ in t.body for x in ast.walk(s_))]
-        if not deciders:
-            raise AnalysisError("RelationalExpression: the IN loop has no `if <member matches>: return`")
-        lv = {x.id for x in ast.walk(lp.target) if isinstance(x, ast.Name)}
-        for t in deciders:
-            by_method = any(isinstance(x, ast.Call) and isinstance(x.func, ast.Attribute) and x.func.attr == eq_method for x in ast.walk(t.test))
-            by_ident = [x for x in ast.walk(t.test) if isinstance(x, ast.Compare) and any(isinstance(o, (ast.Eq, ast.NotEq, ast.Is, ast.IsNot, ast.In, ast.NotIn)) for o in x.ops)
-                        and lv & {y.id for y in ast.walk(x) if isinstance(y, ast.Name)}]
-            ok = by_method and not by_ident
-            rep.ob("C04.x-in-is-defined-through-the-equals-operator", op, "RelationalExpression", t.test, ok,
-                   "member compared with .%s() as `=` is" % eq_method if ok else
-                   "a member of the IN list is matched by `%s` and not by .%s() as the `=` operator is: `1 IN (1.0)` is false although `1 = 1.0` is true" % (norm(t.test)[:50], eq_method), node=t)
-
-    # ------------------------------------------------------------------ (y)
-    rep.rule("C04.y-truth-of-a-python-number-excludes-nan",
-             "where operators.py turns the Python value of a literal (`<lit>.toPython()`) into a truth value with bool(), the same boolean expression also excludes "
-             "NaN (a self-comparison `v == v` / `v != v` or an isnan call): bool(float('nan')) is True in Python but the effective boolean value of NaN is false "
-             "(SPARQL 17.2.2), so FILTER(\"NaN\"^^xsd:double) must reject every solution", floor=1)
-    for q, f in op.functions():
-        if "." in q:
-            continue
-        for c in own_nodes(f):
-            if not (isinstance(c, ast.Call) and norm(c.func) == "bool" and len(c.args) == 1):
-                continue
-            a = c.args[0]
-            from_py = [x for x in H.closure_nodes(f, a, depth=2) if isinstance(x, ast.Call) and isinstance(x.func, ast.Attribute) and x.func.attr == "toPython"]
-            if not from_py:
-                continue
-            top: ast.AST = c
-            for p in op.parents(c):
-                if isinstance(p, (ast.BoolOp, ast.UnaryOp, ast.IfExp)):
-                    top = p
+            iter_vars: dict[str, ast.AST] = {}
+            for n in own_nodes(f, include_nested=True):
+                if isinstance(n, ast.For) and isinstance(n.target, ast.Name):
+                    iter_vars[n.target.id] = n
+                elif isinstance(n, ast.comprehension) and isinstance(n.target, ast.Name):
+                    iter_vars[n.target.id] = n
+            for c in own_nodes(f, include_nested=True):
+                if not (isinstance(c, ast.Call) and norm(c.func) == "EBV" and len(c.args) == 1 and isinstance(c.args[0], ast.Name) and c.args[0].id in iter_vars):
+                    continue
+                loop = iter_vars[c.args[0].id]
+                ok, why = False, ""
+                if not isinstance(loop, ast.For):
+                    why = "EBV is applied inside a comprehension: the first operand error leaves it"
                 else:
-                    break
-            at = norm(a)
-            nan_ok = any((isinstance(x, ast.Compare) and len(x.ops) == 1 and isinstance(x.ops[0], (ast.Eq, ast.NotEq)) and norm(x.left) == at and norm(x.comparators[0]) == at)
-                         or (isinstance(x, ast.Call) and norm(x.func).split(".")[-1].lower().replace("_", "") == "isnan") for x in ast.walk(top))
-            rep.ob("C04.y-truth-of-a-python-number-excludes-nan", op, q, top, nan_ok,
-                   "NaN excluded" if nan_ok else
-                   "bool(%s) of a toPython() value is the whole verdict: NaN is truthy in Python, so FILTER(\"NaN\"^^xsd:double) keeps every solution (its EBV is false)" % at, node=c)
+                    tries = [p for p in op.parents(c) if isinstance(p, ast.Try) and any(p is x for x in ast.walk(loop))]
+                    tries = [t for t in tries if any(c is x for s_ in t.body for x in ast.walk(s_))]
+                    good = [t for t in tries for h in t.handlers if H.handler_catches(h, ERRS)
+                            and not any(isinstance(x, (ast.Raise, ast.Return, ast.Break)) for s_ in h.body for x in ast.walk(s_))]
+                    ok = bool(good)
+                    why = "operand errors are caught inside the loop" if ok else "no try/except SPARQLError around EBV inside the loop, or its handler leaves the loop"
+                rep.ob("C04.t-logical-connective-survives-an-operand-error", op, q, c, ok,
+                       why if ok else why + ": `error && false` / `error || true` give an error instead of false / true", node=c)
+
+    def _rule_u(repo: Repo, rep: Report) -> None:
+        # ------------------------------------------------------------------ (u)
+        # CompValue.__getattr__/__getitem__ evaluate the stored operand at once (value(ctx, v, variables=False)) and raise
+        # NotBoundError for an unbound variable; only .get(name, variables=True) hands the Variable back.
+        rep.rule("C04.u-per-operand-error-handling-reads-operands-unevaluated",
+                 "an evaluation function of operators.py that handles errors PER OPERAND (a loop over operands whose body has try/except SPARQLError) obtains the iterated "
+                 "operands with `<e>.get(<name>, variables=True)` on every path that reaches the loop, never with `<e>.<name>` / `<e>[<name>]`: the attribute form "
+                 "evaluates all operands at once and raises NotBoundError for an unbound variable before the loop is entered, so `?unbound || true` (true), "
+                 "`false && ?unbound` (false) and `1 IN (?unbound, 1)` (true) abort as errors", floor=3)
+        for q, f in op.functions():
+            if "." in q or not f.args.args:
+                continue
+            p0 = f.args.args[0].arg
+            g = None
+            for lp in own_nodes(f):
+                if not (isinstance(lp, ast.For) and any(isinstance(s_, ast.Try) and any(H.handler_catches(h, {"SPARQLError"}) and h.type is not None for h in s_.handlers)
+                                                        for s_ in ast.walk(lp) if s_ is not lp)):
+                    continue
+                names = sorted({n.id for n in ast.walk(lp.iter) if isinstance(n, ast.Name) and isinstance(n.ctx, ast.Load)})
+                if not names:
+                    continue
+                if g is None:
+                    g = CFG(f)
+                raw, lazy = [], 0
+                for nm in names:
+                    for st in H.reaching_values(op, f, g, lp, nm):
+                        v = H.bound_value(st, nm) if st is not None else None
+                        if v is None:
+                            continue
+                        for x in ast.walk(v):
+                            if isinstance(x, ast.Subscript) and isinstance(x.value, ast.Name) and x.value.id == p0:
+                                raw.append(x)
+                            if isinstance(x, ast.Attribute) and isinstance(x.value, ast.Name) and x.value.id == p0:
+                                call = op.parent.get(id(x))
+                                is_get = x.attr == "get" and isinstance(call, ast.Call) and call.func is x
+                                if is_get and any(k.arg == "variables" and isinstance(k.value, ast.Constant) and k.value.value is True for k in call.keywords):
+                                    lazy += 1
+                                elif not (isinstance(call, ast.Call) and call.func is x and x.attr not in ("get",)):
+                                    raw.append(x)
+                if not raw and not lazy:
+                    continue  # the loop does not iterate operands of the expression node
+                rep.ob("C04.u-per-operand-error-handling-reads-operands-unevaluated", op, q, "for %s in %s" % (norm(lp.target), norm(lp.iter)), not raw,
+                       "operands fetched with variables=True" if not raw else
+                       "the iterated operands come from %s, which evaluates them eagerly: an unbound variable among them raises NotBoundError for the whole expression "
+                       "instead of being that operand's error" % sorted({norm(x) for x in raw}), node=lp)
+
+    def _rule_v(repo: Repo, rep: Report) -> None:
+        # ------------------------------------------------------------------ (v)
+        rep.rule("C04.v-extend-checks-a-pushed-in-value",
+                 "where the evaluator adds a binding to a solution with `<solution>.merge({<var>: <value>})` (FrozenBindings.merge overwrites silently - Extend / BIND / "
+                 "(expr AS ?v)), a test that reads the binding the incoming context already has for <var> (`ctx[<var>]`, `.get(<var>)`, `<var> in ...`) guards the merge: "
+                 "a lazy join pushes the left solution into the right operand, and `{ ?s :p ?v } { BIND(2 AS ?v) }` must drop the rows whose ?v is not 2 rather than "
+                 "overwrite ?v and let the incompatible join succeed", floor=1)
+        for q, f in ev.functions():
+            if "." in q:
+                continue
+            g = None
+            for c in own_nodes(f):
+                if not (isinstance(c, ast.Call) and isinstance(c.func, ast.Attribute) and c.func.attr == "merge" and len(c.args) == 1 and isinstance(c.args[0], ast.Dict)):
+                    continue
+                keys = [k for k in c.args[0].keys if k is not None and not isinstance(k, ast.Constant)]
+                if not keys:
+                    continue
+                if g is None:
+                    g = CFG(f)
+                st = H.enclosing_stmt(ev, c)
+                for k in keys:
+                    kt = norm(k)
+
+                    def reads_prior(x: ast.AST) -> bool:
+                        if isinstance(x, ast.Subscript) and norm(x.slice) == kt:
+                            return True
+                        if isinstance(x, ast.Call) and isinstance(x.func, ast.Attribute) and x.func.attr == "get" and x.args and norm(x.args[0]) == kt:
+                            return True
+                        if isinstance(x, ast.Compare) and isinstance(x.ops[0], (ast.In, ast.NotIn)) and norm(x.left) == kt:
+                            return True
+                        return False
+
+                    guards = []
+                    for t in own_nodes(f):
+                        if isinstance(t, ast.If) and any(reads_prior(x) for x in H.closure_nodes(f, t.test)):
+                            inside = any(st is x for s_ in t.body + t.orelse for x in ast.walk(s_))
+                            exits = bool(t.body) and isinstance(t.body[-1], (ast.Continue, ast.Return, ast.Raise, ast.Break))
+                            if inside or exits:
+                                guards.append(g.node_of(t))
+                    ok = bool(guards) and g.must_pass_before(g.node_of(st), guards)
+                    rep.ob("C04.v-extend-checks-a-pushed-in-value", ev, q, c, ok,
+                           "guarded by a test on the prior binding of %s" % kt if ok else
+                           "%s is overwritten unconditionally: no test on the value the context already binds to it dominates the merge; a solution that is "
+                           "incompatible with the pushed-in left solution is turned into a compatible one (`{ ?s :p ?v } { BIND(2 AS ?v) }` returns every ?s)" % kt, node=c)
+
+    def _rule_w(repo: Repo, rep: Report) -> None:
+        # ------------------------------------------------------------------ (w)
+        rep.rule("C04.w-made-up-graph-is-checked-for-existence",
+                 "ConjunctiveGraph/Dataset.get_context(<id>) makes up an (empty) Graph object for ANY identifier. Where the evaluator makes such a graph the active graph "
+                 "(GRAPH <iri> / GRAPH ?bound), every path from there to a yielded solution passes a test that depends on an enumeration of the dataset's graphs "
+                 "(.contexts() / .graphs()): `GRAPH <urn:nosuch> { }`, `GRAPH <urn:nosuch> { OPTIONAL { ?s ?p ?o } }` or `... { BIND(1 AS ?x) }` have NO solution "
+                 "when the dataset has no such graph, but the patterns match the made-up empty graph once", floor=1)
+        ENUM = {"contexts", "graphs"}
+        for q, f in ev.functions():
+            if "." in q:
+                continue
+            calls = [c for c in own_nodes(f) if isinstance(c, ast.Call) and isinstance(c.func, ast.Attribute) and c.func.attr == "get_context"]
+            if not calls:
+                continue
+            g = CFG(f)
+
+            def _enumerates(x: ast.AST) -> bool:
+                """x is a call that enumerates the dataset's graphs, directly or in the body of a module-level helper it names"""
+                if not isinstance(x, ast.Call):
+                    return False
+                if isinstance(x.func, ast.Attribute) and x.func.attr in ENUM:
+                    return True
+                if isinstance(x.func, ast.Name) and ev.has(x.func.id) and x.func.id != q:
+                    return any(isinstance(y, ast.Call) and isinstance(y.func, ast.Attribute) and y.func.attr in ENUM for y in ast.walk(ev.get(x.func.id)))
+                return False
+
+            tests = [g.node_of(t) for t in own_nodes(f) if isinstance(t, (ast.If, ast.While)) and any(_enumerates(x) for x in H.closure_nodes(f, t.test))]
+            for c in calls:
+                src = g.node_of(H.enclosing_stmt(ev, c))
+                free = g.reach(src, avoid=tests)
+                outs = [g.nodes[i].ast for i in sorted(free) if g.nodes[i].ast is not None and g.nodes[i].kind == "stmt"
+                        and any(isinstance(x, (ast.Yield, ast.YieldFrom)) or (isinstance(x, ast.Return) and x.value is not None) for x in ast.walk(g.nodes[i].ast))]
+                any_out = any(isinstance(x, (ast.Yield, ast.YieldFrom, ast.Return)) for i in g.reach(src) if g.nodes[i].ast is not None and g.nodes[i].kind == "stmt" for x in ast.walk(g.nodes[i].ast))
+                if not any_out:
+                    raise AnalysisError("%s: no solution is produced after get_context() (rule C04.w premise changed)" % q)
+                rep.ob("C04.w-made-up-graph-is-checked-for-existence", ev, q, c, not outs,
+                       "every solution is produced after an existence test over the dataset's graphs" if not outs else
+                       "`%s` is reached without any test over the dataset's graphs: for an identifier that names no graph the pattern is matched against the empty graph "
+                       "get_context() made up, and `GRAPH <urn:nosuch> { }` has one solution instead of none" % norm(outs[0])[:50], node=c)
+
+    def _rule_x(repo: Repo, rep: Report) -> None:
+        # ------------------------------------------------------------------ (x)
+        rep.rule("C04.x-in-is-defined-through-the-equals-operator",
+                 "RelationalExpression decides membership for IN / NOT IN with the same term method its operator table uses for `=` (Literal/Identifier.eq: value "
+                 "equality, type error for incomparable terms), not with Python `==` (term identity): SPARQL 17.4.1.9 defines `x IN (a, b)` as `x = a || x = b`, so "
+                 "`1 IN (1.0)` and `\"1\"^^xsd:integer IN (01)` are true", floor=1)
+        rf = op.func("RelationalExpression")
+        # the operator table: a table the function writes out itself or a module-level constant it reads, with a row for `=`
+        # whose value is a callable that applies a method of its first argument
+        eq_rows = []
+        for where, rows in H.tables_of(op, rf):
+            for k, v in rows:
+                if isinstance(k, ast.Constant) and k.value == "=":
+                    m_ = H.method_applied_by(op, v)
+                    if m_ is not None:
+                        eq_rows.append(m_)
+        if len(set(eq_rows)) != 1:
+            raise AnalysisError("RelationalExpression: row for `=` of the operator table not found (%s)" % eq_rows)
+        eq_method = eq_rows[0]
+        # the branch for IN / NOT IN: an `if` whose test is computed (through locals and module constants) from both operator
+        # names and not from `=`
+        in_branches = []
+        for n in own_nodes(rf):
+            if isinstance(n, ast.If):
+                cs = H.constants_behind(op, rf, n.test)
+                if {"IN", "NOT IN"} <= cs and "=" not in cs:
+                    in_branches.append(n)
+        member_loops = [lp for b in in_branches for s_ in b.body for lp in ast.walk(s_) if isinstance(lp, ast.For)]
+        if not member_loops:
+            raise AnalysisError("RelationalExpression: loop over the members of the IN list not found")
+        for lp in member_loops:
+            deciders = [t for t in ast.walk(lp) if isinstance(t, ast.If) and any(isinstance(x, ast.Return) for s_ in t.body for x in ast.walk(s_))]
+            if not deciders:
+                raise AnalysisError("RelationalExpression: the IN loop has no `if <member matches>: return`")
+            lv = {x.id for x in ast.walk(lp.target) if isinstance(x, ast.Name)}
+            for t in deciders:
+                by_method = any(isinstance(x, ast.Call) and isinstance(x.func, ast.Attribute) and x.func.attr == eq_method for x in ast.walk(t.test))
+                by_ident = [x for x in ast.walk(t.test) if isinstance(x, ast.Compare) and any(isinstance(o, (ast.Eq, ast.NotEq, ast.Is, ast.IsNot, ast.In, ast.NotIn)) for o in x.ops)
+                            and lv & {y.id for y in ast.walk(x) if isinstance(y, ast.Name)}]
+                ok = by_method and not by_ident
+                rep.ob("C04.x-in-is-defined-through-the-equals-operator", op, "RelationalExpression", t.test, ok,
+                       "member compared with .%s() as `=` is" % eq_method if ok else
+                       "a member of the IN list is matched by `%s` and not by .%s() as the `=` operator is: `1 IN (1.0)` is false although `1 = 1.0` is true" % (norm(t.test)[:50], eq_method), node=t)
+
+    def _rule_y(repo: Repo, rep: Report) -> None:
+        # ------------------------------------------------------------------ (y)
+        rep.rule("C04.y-truth-of-a-python-number-excludes-nan",
+                 "where operators.py turns the Python value of a literal (`<lit>.toPython()`) into a truth value with bool(), the same boolean expression also excludes "
+                 "NaN (a self-comparison `v == v` / `v != v` or an isnan call): bool(float('nan')) is True in Python but the effective boolean value of NaN is false "
+                 "(SPARQL 17.2.2), so FILTER(\"NaN\"^^xsd:double) must reject every solution", floor=1)
+        for q, f in op.functions():
+            if "." in q:
+                continue
+            for c in own_nodes(f):
+                if not (isinstance(c, ast.Call) and norm(c.func) == "bool" and len(c.args) == 1):
+                    continue
+                a = c.args[0]
+                from_py = [x for x in H.closure_nodes(f, a, depth=2) if isinstance(x, ast.Call) and isinstance(x.func, ast.Attribute) and x.func.attr == "toPython"]
+                if not from_py:
+                    continue
+                top: ast.AST = c
+                for p in op.parents(c):
+                    if isinstance(p, (ast.BoolOp, ast.UnaryOp, ast.IfExp)):
+                        top = p
+                    else:
+                        break
+                at = norm(a)
+                nan_ok = any((isinstance(x, ast.Compare) and len(x.ops) == 1 and isinstance(x.ops[0], (ast.Eq, ast.NotEq)) and norm(x.left) == at and norm(x.comparators[0]) == at)
+                             or (isinstance(x, ast.Call) and norm(x.func).split(".")[-1].lower().replace("_", "") == "isnan") for x in ast.walk(top))
+                rep.ob("C04.y-truth-of-a-python-number-excludes-nan", op, q, top, nan_ok,
+                       "NaN excluded" if nan_ok else
+                       "bool(%s) of a toPython() value is the whole verdict: NaN is truthy in Python, so FILTER(\"NaN\"^^xsd:double) keeps every solution (its EBV is false)" % at, node=c)
+
+    # one rule, one layer (DESIGN §14.2): a rule that loses its anchor on the tree or on one view does not take its neighbours with it
+    for f_ in (_rule_o, _rule_p, _rule_q, _rule_r, _rule_s, _rule_t, _rule_u, _rule_v, _rule_w, _rule_x, _rule_y):
+        _layer(rep, f_, repo)
 
 
 _run_base6 = run
@@ -1001,201 +1149,209 @@ def run(repo: Repo, rep: Report) -> None:  # noqa: F811
         tf = T.type_of(mod.name, e)
         return bool(tf and any(full in T.mro(i) for i in tf.items))
 
-    # ------------------------------------------------------------------ (z)
-    # A QueryContext is the environment a (lazy) generator evaluates the rest of its pattern in: the active graph, the
-    # dataset, initBindings, the prologue.  A solution only points at the context that produced it (FrozenBindings.ctx) and
-    # so do all the other solutions of that generator, the ones still to come included.
-    makers = H.context_makers(sp.methods(QCN), QCN)
-    if "clone" not in makers or len(makers) < 3:
-        raise AnalysisError("QueryContext: methods that hand out a new context not recognised (%s)" % sorted(makers))
-    rep.rule("C04.z-a-context-is-written-only-by-the-function-that-made-it",
-             "in rdflib/plugins/sparql an attribute of a query context (`<context>.graph = ...`, `.initBindings`, `.prologue` ...) is stored only on a context the "
-             "function has made itself on every path (a local bound to QueryContext(...) or to one of the methods that hand out a new context: %s), never on a "
-             "parameter and never on `<solution>.ctx`: the context of a solution is shared with the generator that produced it and with the solutions it has still "
-             "to produce. evalGraph used to reset `x.ctx.graph` of each solution it yielded, so what the inner pattern evaluated afterwards under the same context used the "
-             "graph that is active OUTSIDE of GRAPH: with :a :p :o; :q :z1, :z2, :z3 in a named graph only, "
-             "`GRAPH ?g { ?s :p ?o { SELECT DISTINCT ?s ?z { ?s :q ?z } } FILTER EXISTS { ?s :q ?z } }` returned one row instead of three" % ", ".join(sorted(makers)), floor=8)
-    for name in sorted(m for m in repo.modules if m.startswith("rdflib.plugins.sparql.")):
-        mod = repo.mod(name)
-        for q, f in mod.functions():
-            g = None
-            selfname = f.args.args[0].arg if (mod is sp and q.startswith(QCN + ".") and q.count(".") == 1 and f.args.args) else None
-            for st in own_nodes(f):
-                for t in H.attr_store_targets(st):
-                    b = t.value
-                    if isinstance(b, ast.Name) and b.id == selfname:
-                        continue  # the class's own methods define what writing a context means
-                    is_ctx = _has_type(mod, b, QC)
-                    if not is_ctx and isinstance(b, ast.Attribute) and b.attr == "ctx" and not _has_type(mod, b.value, QC):
-                        tf = T.type_of(mod.name, b)
-                        is_ctx = tf is None or (tf.any and not tf.items)  # `.ctx` of an untyped solution
-                    if g is None and isinstance(b, ast.Name):
-                        g = CFG(f)
-                    defs = H.reaching_values(mod, f, g, st, b.id) if isinstance(b, ast.Name) else []
-                    vals = [H.bound_value(d, b.id) if d is not None else None for d in defs]
-                    if not is_ctx and any(v is not None and _has_type(mod, v, QC) for v in vals):
-                        is_ctx = True  # a local declared otherwise but bound to a context (Builtin_EXISTS re-uses its parameter)
-                    if not is_ctx:
-                        continue
-                    own = bool(vals) and all(H.is_maker_call(v, makers, QCN) for v in vals)
-                    rep.ob("C04.z-a-context-is-written-only-by-the-function-that-made-it", mod, q, st, own,
-                           "%s was made here (%s)" % (norm(b), norm(vals[0])[:40]) if own else
-                           "%s.%s is stored on a context this function did not make (%s): it is shared with the generator that is still producing solutions under it, "
-                           "which from then on evaluates with the changed %s (in `GRAPH ?g { ?s :p ?o { SELECT DISTINCT ?s ?z { ?s :q ?z } } FILTER EXISTS { ?s :q ?z } }` "
-                           "the solutions of the join share one context: EXISTS is evaluated against the outer graph from the second one on and rows are lost)" % (
-                               norm(b), t.attr, "the context of a solution" if isinstance(b, ast.Attribute) else "a parameter / not bound to a new context on every path", t.attr), node=st)
+    def _rule_z(repo: Repo, rep: Report) -> None:
+        # ------------------------------------------------------------------ (z)
+        # A QueryContext is the environment a (lazy) generator evaluates the rest of its pattern in: the active graph, the
+        # dataset, initBindings, the prologue.  A solution only points at the context that produced it (FrozenBindings.ctx) and
+        # so do all the other solutions of that generator, the ones still to come included.
+        makers = H.context_makers(sp.methods(QCN), QCN)
+        if "clone" not in makers or len(makers) < 3:
+            raise AnalysisError("QueryContext: methods that hand out a new context not recognised (%s)" % sorted(makers))
+        rep.rule("C04.z-a-context-is-written-only-by-the-function-that-made-it",
+                 "in rdflib/plugins/sparql an attribute of a query context (`<context>.graph = ...`, `.initBindings`, `.prologue` ...) is stored only on a context the "
+                 "function has made itself on every path (a local bound to QueryContext(...) or to one of the methods that hand out a new context: %s), never on a "
+                 "parameter and never on `<solution>.ctx`: the context of a solution is shared with the generator that produced it and with the solutions it has still "
+                 "to produce. evalGraph used to reset `x.ctx.graph` of each solution it yielded, so what the inner pattern evaluated afterwards under the same context used the "
+                 "graph that is active OUTSIDE of GRAPH: with :a :p :o; :q :z1, :z2, :z3 in a named graph only, "
+                 "`GRAPH ?g { ?s :p ?o { SELECT DISTINCT ?s ?z { ?s :q ?z } } FILTER EXISTS { ?s :q ?z } }` returned one row instead of three" % ", ".join(sorted(makers)), floor=8)
+        for name in sorted(m for m in repo.modules if m.startswith("rdflib.plugins.sparql.")):
+            mod = repo.mod(name)
+            for q, f in mod.functions():
+                g = None
+                selfname = f.args.args[0].arg if (mod is sp and q.startswith(QCN + ".") and q.count(".") == 1 and f.args.args) else None
+                for st in own_nodes(f):
+                    for t in H.attr_store_targets(st):
+                        b = t.value
+                        if isinstance(b, ast.Name) and b.id == selfname:
+                            continue  # the class's own methods define what writing a context means
+                        is_ctx = _has_type(mod, b, QC)
+                        if not is_ctx and isinstance(b, ast.Attribute) and b.attr == "ctx" and not _has_type(mod, b.value, QC):
+                            tf = T.type_of(mod.name, b)
+                            is_ctx = tf is None or (tf.any and not tf.items)  # `.ctx` of an untyped solution
+                        if g is None and isinstance(b, ast.Name):
+                            g = CFG(f)
+                        defs = H.reaching_values(mod, f, g, st, b.id) if isinstance(b, ast.Name) else []
+                        vals = [H.bound_value(d, b.id) if d is not None else None for d in defs]
+                        if not is_ctx and any(v is not None and _has_type(mod, v, QC) for v in vals):
+                            is_ctx = True  # a local declared otherwise but bound to a context (Builtin_EXISTS re-uses its parameter)
+                        if not is_ctx:
+                            continue
+                        own = bool(vals) and all(H.is_maker_call(v, makers, QCN) for v in vals)
+                        rep.ob("C04.z-a-context-is-written-only-by-the-function-that-made-it", mod, q, st, own,
+                               "%s was made here (%s)" % (norm(b), norm(vals[0])[:40]) if own else
+                               "%s.%s is stored on a context this function did not make (%s): it is shared with the generator that is still producing solutions under it, "
+                               "which from then on evaluates with the changed %s (in `GRAPH ?g { ?s :p ?o { SELECT DISTINCT ?s ?z { ?s :q ?z } } FILTER EXISTS { ?s :q ?z } }` "
+                               "the solutions of the join share one context: EXISTS is evaluated against the outer graph from the second one on and rows are lost)" % (
+                                   norm(b), t.attr, "the context of a solution" if isinstance(b, ast.Attribute) else "a parameter / not bound to a new context on every path", t.attr), node=st)
 
-    # ------------------------------------------------------------------ (aa)
-    # Builtin_EXISTS evaluates its pattern in `<solution>.ctx`: the active graph of an EXISTS written outside of GRAPH { } is
-    # whatever the context of the solution says.
-    rep.rule("C04.aa-solutions-leave-graph-on-the-outer-context",
-             "a function of the evaluator that evaluates a part under a context with another active graph (`<ctx>.pushGraph(...)`) does not hand the solutions of "
-             "that part out as they are: every `yield` constructs FrozenBindings(<outer context>, <inner solution>) on a context that is not derived from the pushed "
-             "one. The inner solution's `.ctx` has the inner graph, and a filter applied outside evaluates EXISTS in the context of the solution: "
-             "`{ GRAPH ?g { ?s :p ?o } FILTER EXISTS { ?s :q ?z } }` must look for `?s :q ?z` in the default graph, not in ?g", floor=2)
-    n_push = 0
-    for q, f in ev.functions():
-        if "." in q:
-            continue
-        if not any(isinstance(c, ast.Call) and isinstance(c.func, ast.Attribute) and c.func.attr == "pushGraph" for c in own_nodes(f)):
-            continue
-        n_push += 1
-        pushed: set[str] = set()
-        changed = True
-        while changed:
-            changed = False
+    def _rule_aa(repo: Repo, rep: Report) -> None:
+        # ------------------------------------------------------------------ (aa)
+        # Builtin_EXISTS evaluates its pattern in `<solution>.ctx`: the active graph of an EXISTS written outside of GRAPH { } is
+        # whatever the context of the solution says.
+        rep.rule("C04.aa-solutions-leave-graph-on-the-outer-context",
+                 "a function of the evaluator that evaluates a part under a context with another active graph (`<ctx>.pushGraph(...)`) does not hand the solutions of "
+                 "that part out as they are: every `yield` constructs FrozenBindings(<outer context>, <inner solution>) on a context that is not derived from the pushed "
+                 "one. The inner solution's `.ctx` has the inner graph, and a filter applied outside evaluates EXISTS in the context of the solution: "
+                 "`{ GRAPH ?g { ?s :p ?o } FILTER EXISTS { ?s :q ?z } }` must look for `?s :q ?z` in the default graph, not in ?g", floor=2)
+        n_push = 0
+        for q, f in ev.functions():
+            if "." in q:
+                continue
+            if not any(isinstance(c, ast.Call) and isinstance(c.func, ast.Attribute) and c.func.attr == "pushGraph" for c in own_nodes(f)):
+                continue
+            n_push += 1
+            pushed: set[str] = set()
+            changed = True
+            while changed:
+                changed = False
+                for n in own_nodes(f):
+                    if isinstance(n, ast.Assign) and len(n.targets) == 1 and isinstance(n.targets[0], ast.Name) and n.targets[0].id not in pushed:
+                        if any((isinstance(x, ast.Call) and isinstance(x.func, ast.Attribute) and x.func.attr == "pushGraph") or (isinstance(x, ast.Name) and x.id in pushed)
+                               for x in ast.walk(n.value)):
+                            pushed.add(n.targets[0].id)
+                            changed = True
+            inner: set[str] = set()
             for n in own_nodes(f):
-                if isinstance(n, ast.Assign) and len(n.targets) == 1 and isinstance(n.targets[0], ast.Name) and n.targets[0].id not in pushed:
-                    if any((isinstance(x, ast.Call) and isinstance(x.func, ast.Attribute) and x.func.attr == "pushGraph") or (isinstance(x, ast.Name) and x.id in pushed)
-                           for x in ast.walk(n.value)):
-                        pushed.add(n.targets[0].id)
-                        changed = True
-        inner: set[str] = set()
-        for n in own_nodes(f):
-            if isinstance(n, (ast.For, ast.comprehension)) and any(isinstance(x, ast.Name) and x.id in pushed for x in ast.walk(n.iter)):
-                inner |= {x.id for x in ast.walk(n.target) if isinstance(x, ast.Name)}
-        ys = [y for y in own_nodes(f) if isinstance(y, (ast.Yield, ast.YieldFrom))]
-        if not ys:
-            raise AnalysisError("%s: evaluates under pushGraph() but yields nothing (rule C04.aa premise changed)" % q)
-        for y in ys:
-            v = y.value
-            ok, why = False, "the solution is handed out as `%s`" % (norm(v)[:40] if v is not None else "None")
-            if isinstance(y, ast.Yield) and isinstance(v, ast.Call) and isinstance(v.func, ast.Name) and v.func.id == "FrozenBindings" and v.args:
-                a0 = v.args[0]
-                if isinstance(a0, ast.Name) and a0.id not in pushed and a0.id not in inner and not any(
-                        isinstance(x, ast.Attribute) and x.attr == "ctx" for d in H.local_defs(f, a0.id) for x in ast.walk(d)):
-                    ok, why = True, "re-attached to %s" % a0.id
-                else:
-                    why = "FrozenBindings is constructed on `%s`, which is (derived from) the context with the inner graph" % norm(a0)[:40]
-            rep.ob("C04.aa-solutions-leave-graph-on-the-outer-context", ev, q, y, ok,
-                   why if ok else why + ": its context keeps the graph GRAPH made active (or has to be patched in place, see C04.z), so "
-                   "`{ GRAPH ?g { ?s :p ?o } FILTER EXISTS { ?s :q ?z } }` evaluates EXISTS inside ?g", node=y)
-    if not n_push:
-        raise AnalysisError("evaluate.py: no function evaluates under pushGraph() (rule C04.aa anchor vanished)")
-
-    # ------------------------------------------------------------------ (ab)
-    # translateQuery makes passes over the finished algebra (simplify, analyse -> lazy flags, _addVars -> _vars).  The passes
-    # walk the ITEMS of the nodes.  A translated pattern that is kept on the side of a node (an attribute: EXISTS keeps its
-    # pattern in `.graph`; an item of a node that is not part of the query tree: the `where` of an update) is not reached.
-    tq = alg.func("translateQuery")
-    roots = {norm(c.args[1]) for c in own_nodes(tq) if isinstance(c, ast.Call) and norm(c.func) == "Query" and len(c.args) >= 2}
-    if not roots:
-        raise AnalysisError("translateQuery: `Query(prologue, <algebra>)` not found")
-
-    def _pass_calls(fn: ast.AST, refs: set[str]) -> set[str]:
-        """names of the functions handed, as visitors, to a call whose first argument is one of `refs`"""
-        out: set[str] = set()
-        for c in own_nodes(fn):
-            if isinstance(c, ast.Call) and c.args and norm(c.args[0]) in refs and isinstance(c.func, ast.Name) and "traverse" in c.func.id.lower():
-                for a in list(c.args[1:]) + [k.value for k in c.keywords]:
-                    out |= {x.id for x in ast.walk(a) if isinstance(x, ast.Name) and alg.has(x.id)}
-        return out
-
-    passes = _pass_calls(tq, roots)
-    if len(passes) < 3:
-        raise AnalysisError("translateQuery: expected >= 3 passes over the finished algebra, found %s" % sorted(passes))
-    rep.rule("C04.ab-a-pattern-kept-beside-the-tree-gets-the-passes-of-the-tree",
-             "where the translator stores a translated group graph pattern (a value computed from translateGroupGraphPattern(...)) through an attribute or item "
-             "assignment on an existing node instead of building it into the tree it returns, the same function makes over it every pass translateQuery makes "
-             "over the finished algebra (%s): the traversals follow the items of the tree and do not reach it. Without them the pattern of EXISTS has no `_vars` and no "
-             "lazy flags: in `?s :p ?x FILTER EXISTS { ?s :q ?y OPTIONAL { ?s :q ?z FILTER(?z = ?x) } FILTER(bound(?z)) }` and `... EXISTS { ?s :q ?y BIND(?x AS ?w) "
-             "FILTER(?w = ?y) }` the substituted ?x is lost and no row is returned" % ", ".join(sorted(passes)), floor=2)
-    for q, f in alg.functions():
-        for st in own_nodes(f):
-            if not (isinstance(st, ast.Assign) and len(st.targets) == 1 and isinstance(st.targets[0], (ast.Attribute, ast.Subscript))):
-                continue
-            if not any(isinstance(x, ast.Call) and norm(x.func) == "translateGroupGraphPattern" for x in H.closure_nodes(f, st.value, depth=3)):
-                continue
-            t = st.targets[0]
-            refs = {norm(t)}
-            if isinstance(t, ast.Subscript) and isinstance(t.slice, ast.Constant) and isinstance(t.slice.value, str):
-                refs.add("%s.%s" % (norm(t.value), t.slice.value))  # CompValue: node["k"] is node.k
-            if isinstance(st.value, ast.Name):
-                refs.add(st.value.id)
-            done = _pass_calls(f, refs)
-            # passes made in the very expression that is stored
-            for c in ast.walk(st.value):
-                if isinstance(c, ast.Call) and isinstance(c.func, ast.Name) and "traverse" in c.func.id.lower():
-                    for a in list(c.args[1:]) + [k.value for k in c.keywords]:
-                        done |= {x.id for x in ast.walk(a) if isinstance(x, ast.Name) and alg.has(x.id)}
-            missing = sorted(passes - done)
-            rep.ob("C04.ab-a-pattern-kept-beside-the-tree-gets-the-passes-of-the-tree", alg, q, st, not missing,
-                   "all passes made here" if not missing else
-                   "the pattern stored in %s never gets the pass(es) %s that the query's algebra gets: its nodes have no _vars / lazy flags, so a FILTER, BIND, MINUS or "
-                   "OPTIONAL condition inside it forgets the variables it should keep (EXISTS { ?s :q ?y BIND(?x AS ?w) FILTER(?w = ?y) } is false for every ?x)" % (norm(t), missing), node=st)
-
-    # ------------------------------------------------------------------ (ac)
-    # EXISTS is defined by SUBSTITUTION of the current solution into the pattern (SPARQL 18.6 substitute): inside the pattern the
-    # variables of the solution are constants.  The evaluator's notion of a constant is an initial binding: forget() never hides it.
-    rep.rule("C04.ac-exists-substitutes-the-solution-as-initial-bindings",
-             "an expression evaluator (operators.py) that evaluates a graph pattern with evalPart does so in a context made by `<...>.thaw(<the solution it was "
-             "called with>)`, and on every path to the evalPart call has stored into that context's `initBindings` a mapping computed from the same solution: a "
-             "binding that is merely thawed in counts as `pushed in from a join` and is hidden again by forget() from the FILTER / BIND / OPTIONAL conditions inside the "
-             "pattern. `?s :p ?x FILTER EXISTS { ?s :q ?y BIND(?x AS ?w) FILTER(?w = ?y) }` then has no solution although :a :p 1; :q 1 matches", floor=1)
-    n_ac = 0
-    for q, f in op.functions():
-        if "." in q:
-            continue
-        calls = [c for c in own_nodes(f) if isinstance(c, ast.Call) and norm(c.func).split(".")[-1] == "evalPart"]
-        if not calls:
-            continue
-        g = CFG(f)
-        for c in calls:
-            n_ac += 1
-            ok, why = False, ""
-            a0 = c.args[0] if c.args else None
-            if not isinstance(a0, ast.Name):
-                why = "the context %s is not a local made by thaw()" % (norm(a0)[:40] if a0 is not None else "<none>")
-            else:
-                defs = H.reaching_values(op, f, g, c, a0.id)
-                thaws = []
-                for d in defs:
-                    v = H.bound_value(d, a0.id) if d is not None else None
-                    if isinstance(v, ast.Call) and isinstance(v.func, ast.Attribute) and v.func.attr == "thaw" and len(v.args) == 1 and isinstance(v.args[0], ast.Name):
-                        thaws.append((d, H.denotes_param(op, f, g, d, v.args[0].id)))
+                if isinstance(n, (ast.For, ast.comprehension)) and any(isinstance(x, ast.Name) and x.id in pushed for x in ast.walk(n.iter)):
+                    inner |= {x.id for x in ast.walk(n.target) if isinstance(x, ast.Name)}
+            ys = [y for y in own_nodes(f) if isinstance(y, (ast.Yield, ast.YieldFrom))]
+            if not ys:
+                raise AnalysisError("%s: evaluates under pushGraph() but yields nothing (rule C04.aa premise changed)" % q)
+            for y in ys:
+                v = y.value
+                ok, why = False, "the solution is handed out as `%s`" % (norm(v)[:40] if v is not None else "None")
+                if isinstance(y, ast.Yield) and isinstance(v, ast.Call) and isinstance(v.func, ast.Name) and v.func.id == "FrozenBindings" and v.args:
+                    a0 = v.args[0]
+                    if isinstance(a0, ast.Name) and a0.id not in pushed and a0.id not in inner and not any(
+                            isinstance(x, ast.Attribute) and x.attr == "ctx" for d in H.local_defs(f, a0.id) for x in ast.walk(d)):
+                        ok, why = True, "re-attached to %s" % a0.id
                     else:
-                        thaws.append((d, None))
-                sols = {s for _, s in thaws}
-                if not thaws or None in sols or len(sols) != 1:
-                    why = "the context is not `thaw(<the solution parameter>)` on every path"
+                        why = "FrozenBindings is constructed on `%s`, which is (derived from) the context with the inner graph" % norm(a0)[:40]
+                rep.ob("C04.aa-solutions-leave-graph-on-the-outer-context", ev, q, y, ok,
+                       why if ok else why + ": its context keeps the graph GRAPH made active (or has to be patched in place, see C04.z), so "
+                       "`{ GRAPH ?g { ?s :p ?o } FILTER EXISTS { ?s :q ?z } }` evaluates EXISTS inside ?g", node=y)
+        if not n_push:
+            raise AnalysisError("evaluate.py: no function evaluates under pushGraph() (rule C04.aa anchor vanished)")
+
+    def _rule_ab(repo: Repo, rep: Report) -> None:
+        # ------------------------------------------------------------------ (ab)
+        # translateQuery makes passes over the finished algebra (simplify, analyse -> lazy flags, _addVars -> _vars).  The passes
+        # walk the ITEMS of the nodes.  A translated pattern that is kept on the side of a node (an attribute: EXISTS keeps its
+        # pattern in `.graph`; an item of a node that is not part of the query tree: the `where` of an update) is not reached.
+        tq = alg.func("translateQuery")
+        roots = {norm(c.args[1]) for c in own_nodes(tq) if isinstance(c, ast.Call) and norm(c.func) == "Query" and len(c.args) >= 2}
+        if not roots:
+            raise AnalysisError("translateQuery: `Query(prologue, <algebra>)` not found")
+
+        def _pass_calls(fn: ast.AST, refs: set[str]) -> set[str]:
+            """names of the functions handed, as visitors, to a call whose first argument is one of `refs`"""
+            out: set[str] = set()
+            for c in own_nodes(fn):
+                if isinstance(c, ast.Call) and c.args and norm(c.args[0]) in refs and isinstance(c.func, ast.Name) and "traverse" in c.func.id.lower():
+                    for a in list(c.args[1:]) + [k.value for k in c.keywords]:
+                        out |= {x.id for x in ast.walk(a) if isinstance(x, ast.Name) and alg.has(x.id)}
+            return out
+
+        passes = _pass_calls(tq, roots)
+        if len(passes) < 3:
+            raise AnalysisError("translateQuery: expected >= 3 passes over the finished algebra, found %s" % sorted(passes))
+        rep.rule("C04.ab-a-pattern-kept-beside-the-tree-gets-the-passes-of-the-tree",
+                 "where the translator stores a translated group graph pattern (a value computed from translateGroupGraphPattern(...)) through an attribute or item "
+                 "assignment on an existing node instead of building it into the tree it returns, the same function makes over it every pass translateQuery makes "
+                 "over the finished algebra (%s): the traversals follow the items of the tree and do not reach it. Without them the pattern of EXISTS has no `_vars` and no "
+                 "lazy flags: in `?s :p ?x FILTER EXISTS { ?s :q ?y OPTIONAL { ?s :q ?z FILTER(?z = ?x) } FILTER(bound(?z)) }` and `... EXISTS { ?s :q ?y BIND(?x AS ?w) "
+                 "FILTER(?w = ?y) }` the substituted ?x is lost and no row is returned" % ", ".join(sorted(passes)), floor=2)
+        for q, f in alg.functions():
+            for st in own_nodes(f):
+                if not (isinstance(st, ast.Assign) and len(st.targets) == 1 and isinstance(st.targets[0], (ast.Attribute, ast.Subscript))):
+                    continue
+                if not any(isinstance(x, ast.Call) and norm(x.func) == "translateGroupGraphPattern" for x in H.closure_nodes(f, st.value, depth=3)):
+                    continue
+                t = st.targets[0]
+                refs = {norm(t)}
+                if isinstance(t, ast.Subscript) and isinstance(t.slice, ast.Constant) and isinstance(t.slice.value, str):
+                    refs.add("%s.%s" % (norm(t.value), t.slice.value))  # CompValue: node["k"] is node.k
+                if isinstance(st.value, ast.Name):
+                    refs.add(st.value.id)
+                done = _pass_calls(f, refs)
+                # passes made in the very expression that is stored
+                for c in ast.walk(st.value):
+                    if isinstance(c, ast.Call) and isinstance(c.func, ast.Name) and "traverse" in c.func.id.lower():
+                        for a in list(c.args[1:]) + [k.value for k in c.keywords]:
+                            done |= {x.id for x in ast.walk(a) if isinstance(x, ast.Name) and alg.has(x.id)}
+                missing = sorted(passes - done)
+                rep.ob("C04.ab-a-pattern-kept-beside-the-tree-gets-the-passes-of-the-tree", alg, q, st, not missing,
+                       "all passes made here" if not missing else
+                       "the pattern stored in %s never gets the pass(es) %s that the query's algebra gets: its nodes have no _vars / lazy flags, so a FILTER, BIND, MINUS or "
+                       "OPTIONAL condition inside it forgets the variables it should keep (EXISTS { ?s :q ?y BIND(?x AS ?w) FILTER(?w = ?y) } is false for every ?x)" % (norm(t), missing), node=st)
+
+    def _rule_ac(repo: Repo, rep: Report) -> None:
+        # ------------------------------------------------------------------ (ac)
+        # EXISTS is defined by SUBSTITUTION of the current solution into the pattern (SPARQL 18.6 substitute): inside the pattern the
+        # variables of the solution are constants.  The evaluator's notion of a constant is an initial binding: forget() never hides it.
+        rep.rule("C04.ac-exists-substitutes-the-solution-as-initial-bindings",
+                 "an expression evaluator (operators.py) that evaluates a graph pattern with evalPart does so in a context made by `<...>.thaw(<the solution it was "
+                 "called with>)`, and on every path to the evalPart call has stored into that context's `initBindings` a mapping computed from the same solution: a "
+                 "binding that is merely thawed in counts as `pushed in from a join` and is hidden again by forget() from the FILTER / BIND / OPTIONAL conditions inside the "
+                 "pattern. `?s :p ?x FILTER EXISTS { ?s :q ?y BIND(?x AS ?w) FILTER(?w = ?y) }` then has no solution although :a :p 1; :q 1 matches", floor=1)
+        n_ac = 0
+        for q, f in op.functions():
+            if "." in q:
+                continue
+            calls = [c for c in own_nodes(f) if isinstance(c, ast.Call) and norm(c.func).split(".")[-1] == "evalPart"]
+            if not calls:
+                continue
+            g = CFG(f)
+            for c in calls:
+                n_ac += 1
+                ok, why = False, ""
+                a0 = c.args[0] if c.args else None
+                if not isinstance(a0, ast.Name):
+                    why = "the context %s is not a local made by thaw()" % (norm(a0)[:40] if a0 is not None else "<none>")
                 else:
-                    sol = sols.pop()
-                    stores = []
-                    for st in own_nodes(f):
-                        for t in H.attr_store_targets(st):
-                            if t.attr == "initBindings" and isinstance(t.value, ast.Name) and t.value.id == a0.id and isinstance(st, ast.Assign):
-                                same_ctx = all(any(x is d for d, _ in thaws) for x in H.reaching_values(op, f, g, st, a0.id) if x is not None) and None not in H.reaching_values(op, f, g, st, a0.id)
-                                from_sol = any(isinstance(x, ast.Name) and isinstance(x.ctx, ast.Load) and H.denotes_param(op, f, g, st, x.id) == sol for x in ast.walk(st.value))
-                                if same_ctx and from_sol:
-                                    stores.append(g.node_of(st))
-                    ok = bool(stores) and g.must_pass_before(g.node_of(c, op), stores)
-                    why = "initBindings of the thawed context include the solution" if ok else \
-                        "no `%s.initBindings = <... the solution %s ...>` dominates the evaluation of the pattern" % (a0.id, sol)
-            rep.ob("C04.ac-exists-substitutes-the-solution-as-initial-bindings", op, q, c, ok,
-                   why if ok else why + ": the variables of the current solution are not constants inside the pattern, forget() hides them from the conditions "
-                   "evaluated in it (EXISTS { ?s :q ?y OPTIONAL { ?s :q ?z FILTER(?z = ?x) } FILTER(bound(?z)) } is false for every outer ?x)", node=c)
-    if not n_ac:
-        raise AnalysisError("operators.py: no expression evaluates a graph pattern with evalPart (rule C04.ac anchor vanished)")
+                    defs = H.reaching_values(op, f, g, c, a0.id)
+                    thaws = []
+                    for d in defs:
+                        v = H.bound_value(d, a0.id) if d is not None else None
+                        if isinstance(v, ast.Call) and isinstance(v.func, ast.Attribute) and v.func.attr == "thaw" and len(v.args) == 1 and isinstance(v.args[0], ast.Name):
+                            thaws.append((d, H.denotes_param(op, f, g, d, v.args[0].id)))
+                        else:
+                            thaws.append((d, None))
+                    sols = {s for _, s in thaws}
+                    if not thaws or None in sols or len(sols) != 1:
+                        why = "the context is not `thaw(<the solution parameter>)` on every path"
+                    else:
+                        sol = sols.pop()
+                        stores = []
+                        for st in own_nodes(f):
+                            for t in H.attr_store_targets(st):
+                                if t.attr == "initBindings" and isinstance(t.value, ast.Name) and t.value.id == a0.id and isinstance(st, ast.Assign):
+                                    same_ctx = all(any(x is d for d, _ in thaws) for x in H.reaching_values(op, f, g, st, a0.id) if x is not None) and None not in H.reaching_values(op, f, g, st, a0.id)
+                                    from_sol = any(isinstance(x, ast.Name) and isinstance(x.ctx, ast.Load) and H.denotes_param(op, f, g, st, x.id) == sol for x in ast.walk(st.value))
+                                    if same_ctx and from_sol:
+                                        stores.append(g.node_of(st))
+                        ok = bool(stores) and g.must_pass_before(g.node_of(c, op), stores)
+                        why = "initBindings of the thawed context include the solution" if ok else \
+                            "no `%s.initBindings = <... the solution %s ...>` dominates the evaluation of the pattern" % (a0.id, sol)
+                rep.ob("C04.ac-exists-substitutes-the-solution-as-initial-bindings", op, q, c, ok,
+                       why if ok else why + ": the variables of the current solution are not constants inside the pattern, forget() hides them from the conditions "
+                       "evaluated in it (EXISTS { ?s :q ?y OPTIONAL { ?s :q ?z FILTER(?z = ?x) } FILTER(bound(?z)) } is false for every outer ?x)", node=c)
+        if not n_ac:
+            raise AnalysisError("operators.py: no expression evaluates a graph pattern with evalPart (rule C04.ac anchor vanished)")
+
+    # one rule, one layer (DESIGN §14.2): a rule that loses its anchor on the tree or on one view does not take its neighbours with it
+    for f_ in (_rule_z, _rule_aa, _rule_ab, _rule_ac):
+        _layer(rep, f_, repo)
 
 
 _run_before_borrow = run
